@@ -86,3 +86,1490 @@ Proof.
   - locr_same.
   - intros f. locr_same.
 Qed.
+
+(** ---------------------------------------------------------------------------------------------
+    the relation, split into locals and globals *)
+Definition locals_of (e : env) (nm : name) : option rng := first_some (frame_lookup nm) (e_frames e).
+
+Record Pre2 (f : N) (e : env) (s : st) : Prop := mkPre2 {
+  p2_file : current_file s = f;
+  p2_loc_some : forall nm d, locals_of e nm = Some d ->
+                             exists sym, find_local s nm = Some sym /\ define_loc s sym = Some d;
+  p2_loc_none : forall nm, locals_of e nm = None -> find_local s nm = None;
+  p2_def_some : forall nm d, lookup nm (e_defs e) = Some d ->
+                             exists id, find_def s nm = Some id /\ define_loc s (SyRecord id) = Some d;
+  p2_def_none : forall nm, lookup nm (e_defs e) = None -> find_def s nm = None;
+  p2_dset_some : forall nm d, lookup nm (e_dsets e) = Some d ->
+                              exists id, find_defset s nm = Some id /\ define_loc s (SyLeaf id) = Some d;
+  p2_dset_none : forall nm, lookup nm (e_dsets e) = None -> find_defset s nm = None;
+  p2_cls_some : forall nm d, lookup_class e nm = Some d -> class_view s nm = Some d;
+  p2_cls_none : forall nm, lookup_class e nm = None -> find_class s nm = None;
+  p2_mc_some : forall nm d, lookup_mc e nm = Some d -> mc_view s nm = Some d;
+  p2_mc_none : forall nm, lookup_mc e nm = None -> find_multiclass s nm = None }.
+
+Lemma Pre2_Pre : forall f e s, Pre2 f e s -> Pre f e s.
+Proof.
+  intros f e s [F L1 L2 D1 D2 S1 S2 C1 C2 M1 M2]. split; auto.
+  - intros nm d H. unfold lookup_id in H. fold (locals_of e nm) in H. unfold lookup_view, resolve_id.
+    destruct (locals_of e nm) as [d0|] eqn:El.
+    + injection H as <-. destruct (L1 nm d0 El) as [sym [Hs Hd]]. now rewrite Hs.
+    + rewrite (L2 nm El). destruct (lookup nm (e_defs e)) as [d1|] eqn:Ed.
+      * injection H as <-. destruct (D1 nm d1 Ed) as [id [Hs Hd]]. now rewrite Hs.
+      * rewrite (D2 nm Ed). destruct (S1 nm d H) as [id [Hs Hd]]. rewrite Hs. exact Hd.
+  - intros nm H. unfold lookup_id in H. fold (locals_of e nm) in H. unfold resolve_id.
+    destruct (locals_of e nm) as [d0|] eqn:El; [discriminate|]. rewrite (L2 nm El).
+    destruct (lookup nm (e_defs e)) as [d1|] eqn:Ed; [discriminate|]. rewrite (D2 nm Ed).
+    now rewrite (S2 nm H).
+Qed.
+
+Lemma Pre2_initial : Pre2 0 env0 st0.
+Proof. split; try reflexivity; intros; discriminate. Qed.
+
+Lemma find_local_eq : forall s s' nm,
+    s_scopes s' = s_scopes s -> s_recs s' = s_recs s -> s_mcs s' = s_mcs s -> find_local s' nm = find_local s nm.
+Proof.
+  intros s s' nm Hs Hr Hm. unfold find_local. rewrite Hs.
+  apply find_map_ext. intros c. now apply scope_find_eq.
+Qed.
+
+(** values (and anything else that respects VR and the scope stack) keep the relation *)
+Lemma Pre2_VR : forall f e s s', Pre2 f e s -> VR s s' -> s_scopes s' = s_scopes s -> Pre2 f e s'.
+Proof.
+  intros f e s s' [F L1 L2 D1 D2 S1 S2 C1 C2 M1 M2] V Hs.
+  pose proof V as (Hr & Hm & Hc & Hd & Hmc & Hds & Ht & Hl).
+  assert (FL : forall nm, find_local s' nm = find_local s nm) by (intros; now apply find_local_eq).
+  split.
+  - unfold current_file in *. now rewrite Ht.
+  - intros nm d H. destruct (L1 nm d H) as [sym [A B]]. exists sym. rewrite FL. split; [exact A|].
+    now apply (define_loc_ext s s').
+  - intros nm H. rewrite FL. now apply L2.
+  - intros nm d H. destruct (D1 nm d H) as [id [A B]]. exists id. unfold find_def in *. rewrite Hd.
+    split; [exact A|]. now apply (define_loc_ext s s').
+  - intros nm H. unfold find_def in *. rewrite Hd. now apply D2.
+  - intros nm d H. destruct (S1 nm d H) as [id [A B]]. exists id. unfold find_defset in *. rewrite Hds.
+    split; [exact A|]. now apply (define_loc_ext s s').
+  - intros nm H. unfold find_defset in *. rewrite Hds. now apply S2.
+  - intros nm d H. specialize (C1 nm d H). unfold class_view, find_class in *. now rewrite Hc, Hr.
+  - intros nm H. unfold find_class in *. rewrite Hc. now apply C2.
+  - intros nm d H. specialize (M1 nm d H). unfold mc_view, find_multiclass in *. now rewrite Hmc, Hm.
+  - intros nm H. unfold find_multiclass in *. rewrite Hmc. now apply M2.
+Qed.
+Lemma Pre2_Step : forall f e s s' E, Pre2 f e s -> Step s s' E -> Pre2 f e s'.
+Proof. intros f e s s' E P [_ V S _]. eapply Pre2_VR; eassumption. Qed.
+
+(** ---------------------------------------------------------------------------------------------
+    statement level *)
+Record Stat (s : st) : Prop := mkStat {
+  sta_norec : current_record_id s = None;
+  sta_mcv : mc_scopes_valid s;
+  sta_ne : s_scopes s <> [] }.
+
+Record ResB (f : N) (s s' : st) (E : list ev) (e' : env) : Prop := mkResB {
+  rb_uses : s_uses s' = rev E ++ s_uses s;
+  rb_nf : nf s' = nf s;
+  rb_scopes : exists vs, s_scopes s' = add_vars vs (s_scopes s);
+  rb_pre : Pre2 f e' s';
+  rb_stat : Stat s';
+  rb_frames : e_frames e' <> [] }.
+
+(** two states that differ at most in their scope stacks *)
+Definition same_but_scopes (a b : st) : Prop :=
+  s_trace a = s_trace b /\ s_recs a = s_recs b /\ s_mcs a = s_mcs b /\ s_leaves a = s_leaves b /\
+  s_nclass a = s_nclass b /\ s_ndef a = s_ndef b /\ s_nmc a = s_nmc b /\ s_ndset a = s_ndset b /\
+  s_uses a = s_uses b /\ s_diags a = s_diags b.
+
+Lemma define_loc_sbs : forall a b sym, same_but_scopes a b -> define_loc a sym = define_loc b sym.
+Proof. intros a b sym (_ & Hr & Hm & Hl & _). destruct sym; simpl; congruence. Qed.
+
+Lemma mc_valid_after : forall s s', s_scopes s' = s_scopes s -> mcs_pref (s_mcs s) (s_mcs s') ->
+    mc_scopes_valid s -> mc_scopes_valid s'.
+Proof.
+  intros s s' Hs Hp Hv c mid Hin Hk. rewrite Hs in Hin. specialize (Hv c mid Hin Hk).
+  destruct (nthN (s_mcs s) mid) as [m0|] eqn:E; [|congruence].
+  destruct (Hp _ _ E) as [m' [E' _]]. congruence.
+Qed.
+
+(** the global half of the relation *)
+Record Pre2g (f : N) (e : env) (s : st) : Prop := mkPre2g {
+  g_file : current_file s = f;
+  g_def_some : forall nm d, lookup nm (e_defs e) = Some d ->
+                            exists id, find_def s nm = Some id /\ define_loc s (SyRecord id) = Some d;
+  g_def_none : forall nm, lookup nm (e_defs e) = None -> find_def s nm = None;
+  g_dset_some : forall nm d, lookup nm (e_dsets e) = Some d ->
+                             exists id, find_defset s nm = Some id /\ define_loc s (SyLeaf id) = Some d;
+  g_dset_none : forall nm, lookup nm (e_dsets e) = None -> find_defset s nm = None;
+  g_cls_some : forall nm d, lookup_class e nm = Some d -> class_view s nm = Some d;
+  g_cls_none : forall nm, lookup_class e nm = None -> find_class s nm = None;
+  g_mc_some : forall nm d, lookup_mc e nm = Some d -> mc_view s nm = Some d;
+  g_mc_none : forall nm, lookup_mc e nm = None -> find_multiclass s nm = None }.
+Lemma Pre2_g : forall f e s, Pre2 f e s -> Pre2g f e s.
+Proof. intros f e s [F L1 L2 D1 D2 S1 S2 C1 C2 M1 M2]. split; auto. Qed.
+Lemma Pre2g_globals : forall f e e' s, same_globals e e' -> Pre2g f e s -> Pre2g f e' s.
+Proof.
+  intros f e e' s (G1 & G2 & G3 & G4) [F D1 D2 S1 S2 C1 C2 M1 M2].
+  assert (Hcl : forall nm, lookup_class e' nm = lookup_class e nm) by (intros; unfold lookup_class; now rewrite G1).
+  assert (Hmcl : forall nm, lookup_mc e' nm = lookup_mc e nm) by (intros; unfold lookup_mc; now rewrite G2).
+  split; auto.
+  - intros nm d H. rewrite G3 in H. auto.
+  - intros nm H. rewrite G3 in H. auto.
+  - intros nm d H. rewrite G4 in H. auto.
+  - intros nm H. rewrite G4 in H. auto.
+  - intros nm d H. rewrite Hcl in H. auto.
+  - intros nm H. rewrite Hcl in H. auto.
+  - intros nm d H. rewrite Hmcl in H. auto.
+  - intros nm H. rewrite Hmcl in H. auto.
+Qed.
+
+(** after a block-like statement whose body ended in [s_in] (related to [e1]): the locals are those of before
+    the statement, the globals those of the end of the body *)
+Lemma finish_block_like : forall files n x f e e1 e' s s_in E,
+    block_like x = true -> Stat s -> Pre2 f e s -> e_frames e <> [] ->
+    e_frames e' = e_frames e -> same_globals e1 e' ->
+    Pre2g f e1 s_in -> same_but_scopes (snd (index_stmt files n x s)) s_in ->
+    s_uses s_in = rev E ++ s_uses s -> nf s_in = nf s ->
+    ResB f s (snd (index_stmt files n x s)) E e'.
+Proof.
+  intros files n x f e e1 e' s s_in E Hx [Hnr Hmv Hne] P He Hfr (G1 & G2 & G3 & G4) P1 SB HU HN.
+  assert (Hloc : forall nm, locals_of e' nm = locals_of e nm) by (intros; unfold locals_of; now rewrite Hfr).
+  assert (Hcl : forall nm, lookup_class e' nm = lookup_class e1 nm) by (intros; unfold lookup_class; now rewrite G1).
+  assert (Hmcl : forall nm, lookup_mc e' nm = lookup_mc e1 nm) by (intros; unfold lookup_mc; now rewrite G2).
+  set (s' := snd (index_stmt files n x s)) in *.
+  pose proof (scopes_balanced files n x s Hx) as Hsc. fold s' in Hsc.
+  pose proof (LocR_index_stmt files n x s) as HL. fold s' in HL.
+  destruct (RS_index_stmt files n x s) as [_ Hpm]. fold s' in Hpm. specialize (Hpm Hnr).
+  assert (FL : forall nm, find_local s' nm = find_local s nm)
+    by (intros; apply locals_do_not_leak; assumption).
+  pose proof SB as (Ht & Hr & Hm & Hl & Hc & Hd & Hmc & Hds & Hu & Hdg).
+  destruct P as [F L1 L2 D1 D2 S1 S2 C1 C2 M1 M2].
+  destruct P1 as [F' D1' D2' S1' S2' C1' C2' M1' M2'].
+  split.
+  - now rewrite Hu.
+  - unfold nf in *. now rewrite Hdg.
+  - exists []. now rewrite add_vars_nil.
+  - split.
+    + unfold current_file in *. now rewrite Ht.
+    + intros nm d H. rewrite Hloc in H. destruct (L1 nm d H) as [sym [A B]]. exists sym. rewrite FL.
+      split; [exact A|now apply HL].
+    + intros nm H. rewrite Hloc in H. rewrite FL. now apply L2.
+    + intros nm d H. rewrite G3 in H. destruct (D1' nm d H) as [id [A B]]. exists id. unfold find_def in *. rewrite Hd.
+      split; [exact A|]. now rewrite (define_loc_sbs s' s_in).
+    + intros nm H. rewrite G3 in H. unfold find_def in *. rewrite Hd. now apply D2'.
+    + intros nm d H. rewrite G4 in H. destruct (S1' nm d H) as [id [A B]]. exists id. unfold find_defset in *.
+      rewrite Hds. split; [exact A|]. now rewrite (define_loc_sbs s' s_in).
+    + intros nm H. rewrite G4 in H. unfold find_defset in *. rewrite Hds. now apply S2'.
+    + intros nm d H. rewrite Hcl in H. specialize (C1' nm d H). unfold class_view, find_class in *. now rewrite Hc, Hr.
+    + intros nm H. rewrite Hcl in H. unfold find_class in *. rewrite Hc. now apply C2'.
+    + intros nm d H. rewrite Hmcl in H. specialize (M1' nm d H). unfold mc_view, find_multiclass in *. now rewrite Hmc, Hm.
+    + intros nm H. rewrite Hmcl in H. unfold find_multiclass in *. rewrite Hmc. now apply M2'.
+  - split.
+    + unfold current_record_id in *. now rewrite Hsc.
+    + now apply (mc_valid_after s s').
+    + now rewrite Hsc.
+  - now rewrite Hfr.
+Qed.
+
+(** ---- Pre2 under the scope operations *)
+Lemma find_local_pushed : forall k s nm, plain_kind k = true -> find_local (pushed k s) nm = find_local s nm.
+Proof.
+  intros k s nm Hk. unfold find_local, pushed; simpl.
+  unfold scope_find at 1, sc_find_variable; simpl. destruct k; try discriminate; reflexivity.
+Qed.
+Lemma define_loc_pushed : forall k s sym, define_loc (pushed k s) sym = define_loc s sym.
+Proof. intros. destruct sym; reflexivity. Qed.
+
+Lemma Pre2_pushed : forall f e s k, Pre2 f e s -> plain_kind k = true -> Pre2 f (push_vars e []) (pushed k s).
+Proof.
+  intros f e s k [F L1 L2 D1 D2 S1 S2 C1 C2 M1 M2] Hk. split; auto.
+  - intros nm d H. change (locals_of (push_vars e []) nm) with (locals_of e nm) in H.
+    destruct (L1 nm d H) as [sym [A B]]. exists sym. rewrite find_local_pushed by assumption. auto.
+  - intros nm H. change (locals_of (push_vars e []) nm) with (locals_of e nm) in H.
+    rewrite find_local_pushed by assumption. now apply L2.
+Qed.
+Lemma Stat_pushed : forall k s, Stat s -> plain_kind k = true -> Stat (pushed k s).
+Proof.
+  intros k s [A B C] Hk. split.
+  - unfold current_record_id, pushed in *; simpl. unfold sc_record_id at 1; simpl. destruct k; try discriminate; exact A.
+  - intros c mid [<-|Hin] Hc; simpl in *.
+    + destruct k; try discriminate.
+    + apply (B c mid Hin Hc).
+  - discriminate.
+Qed.
+
+Lemma find_local_pushed_foreach : forall nmv vid s nm,
+    find_local (pushed (KForeach nmv vid) s) nm
+    = if name_eqb nm nmv then Some (SyLeaf vid) else find_local s nm.
+Proof.
+  intros. unfold find_local, pushed; simpl.
+  unfold scope_find at 1, sc_find_variable; simpl. destruct (name_eqb nm nmv); reflexivity.
+Qed.
+Lemma Pre2_pushed_foreach : forall f e s i vid loc,
+    Pre2 f e s -> option_map lf_loc (nthN (s_leaves s) vid) = Some loc ->
+    Pre2 f (push_vars e [(i_name i, loc)]) (pushed (KForeach (i_name i) vid) s).
+Proof.
+  intros f e s i vid loc [F L1 L2 D1 D2 S1 S2 C1 C2 M1 M2] Hl. split; auto.
+  - intros nm d H. unfold locals_of, push_vars in H. simpl in H. unfold frame_lookup at 1 in H. simpl in H.
+    rewrite find_local_pushed_foreach. destruct (name_eqb nm (i_name i)).
+    + injection H as <-. exists (SyLeaf vid). split; [reflexivity|exact Hl].
+    + destruct (L1 nm d H) as [sym [A B]]. exists sym. auto.
+  - intros nm H. unfold locals_of, push_vars in H. simpl in H. unfold frame_lookup at 1 in H. simpl in H.
+    rewrite find_local_pushed_foreach. destruct (name_eqb nm (i_name i)); [discriminate|]. now apply L2.
+Qed.
+Lemma Stat_pushed_foreach : forall nmv vid s, Stat s -> Stat (pushed (KForeach nmv vid) s).
+Proof.
+  intros nmv vid s [A B C]. split.
+  - unfold current_record_id, pushed in *; simpl. exact A.
+  - intros c mid [<-|Hin] Hc; simpl in *; [discriminate|apply (B c mid Hin Hc)].
+  - discriminate.
+Qed.
+
+Lemma find_local_with_var : forall s l c t nm, s_scopes s = c :: t ->
+    find_local (with_var s l) nm
+    = if name_eqb nm (lf_name l) then Some (SyLeaf (lenN (s_leaves s))) else find_local s nm.
+Proof.
+  intros s l c t nm Hs. destruct (with_var_facts s l c t Hs) as (Hsc & Hl & _ & _ & V).
+  pose proof V as (Hr & Hm & _).
+  unfold find_local. rewrite Hsc, Hs. simpl.
+  rewrite (scope_find_add s (with_var s l) c (lf_name l) (lenN (s_leaves s)) nm Hr Hm).
+  destruct (name_eqb nm (lf_name l)); [reflexivity|].
+  rewrite (find_map_ext _ _ (fun c0 => scope_find (with_var s l) c0 nm) (fun c0 => scope_find s c0 nm));
+    [reflexivity|]. intros c0. apply scope_find_eq; assumption.
+Qed.
+Lemma locals_of_add_var : forall e n r nm, e_frames e <> [] ->
+    locals_of (add_var e n r) nm = if name_eqb nm n then Some r else locals_of e nm.
+Proof.
+  intros e n r nm H. unfold locals_of, add_var. destruct (e_frames e) as [|fr t]; [congruence|]. simpl.
+  unfold frame_lookup at 1. simpl. destruct (name_eqb nm n); reflexivity.
+Qed.
+Lemma globals_add_var : forall e n r,
+    e_defs (add_var e n r) = e_defs e /\ e_dsets (add_var e n r) = e_dsets e.
+Proof. intros. unfold add_var. destruct (e_frames e); split; reflexivity. Qed.
+
+Lemma Pre2_with_var : forall f e s nm ty c t,
+    Pre2 f e s -> s_scopes s = c :: t -> e_frames e <> [] ->
+    let loc := mkR f (r_lo (i_rng nm)) (r_hi (i_rng nm)) in
+    Pre2 f (add_var e (i_name nm) loc) (with_var s (mkLeaf LVar (i_name nm) ty false loc)).
+Proof.
+  intros f e s nm ty c t P Hs He loc.
+  set (l := mkLeaf LVar (i_name nm) ty false loc).
+  destruct (with_var_facts s l c t Hs) as (Hsc & Hl & _ & _ & V).
+  destruct P as [F L1 L2 D1 D2 S1 S2 C1 C2 M1 M2].
+  pose proof V as (Hr & Hm & Hc & Hd & Hmc & Hds & Ht & _).
+  destruct (globals_add_var e (i_name nm) loc) as [Gd Gs].
+  split.
+  - unfold current_file in *. now rewrite Ht.
+  - intros n0 d H. rewrite locals_of_add_var in H by assumption.
+    rewrite (find_local_with_var s l c t n0 Hs). simpl.
+    destruct (name_eqb n0 (i_name nm)).
+    + injection H as <-. exists (SyLeaf (lenN (s_leaves s))). split; [reflexivity|].
+      simpl. rewrite Hl, nthN_app_last. reflexivity.
+    + destruct (L1 n0 d H) as [sym [A B]]. exists sym. split; [exact A|now apply (define_loc_ext s _ _ _ V)].
+  - intros n0 H. rewrite locals_of_add_var in H by assumption.
+    rewrite (find_local_with_var s l c t n0 Hs). simpl.
+    destruct (name_eqb n0 (i_name nm)); [discriminate|]. now apply L2.
+  - intros n0 d H. rewrite Gd in H. destruct (D1 n0 d H) as [id [A B]]. exists id. unfold find_def in *. rewrite Hd.
+    split; [exact A|now apply (define_loc_ext s _ _ _ V)].
+  - intros n0 H. rewrite Gd in H. unfold find_def in *. rewrite Hd. now apply D2.
+  - intros n0 d H. rewrite Gs in H. destruct (S1 n0 d H) as [id [A B]]. exists id. unfold find_defset in *. rewrite Hds.
+    split; [exact A|now apply (define_loc_ext s _ _ _ V)].
+  - intros n0 H. rewrite Gs in H. unfold find_defset in *. rewrite Hds. now apply S2.
+  - intros n0 d H. rewrite lookup_class_add_var in H.
+    specialize (C1 n0 d H). unfold class_view, find_class in *. now rewrite Hc, Hr.
+  - intros n0 H. rewrite lookup_class_add_var in H. unfold find_class in *. rewrite Hc. now apply C2.
+  - intros n0 d H. rewrite lookup_mc_add_var in H.
+    specialize (M1 n0 d H). unfold mc_view, find_multiclass in *. now rewrite Hmc, Hm.
+  - intros n0 H. rewrite lookup_mc_add_var in H. unfold find_multiclass in *. rewrite Hmc. now apply M2.
+Qed.
+
+(** ---------------------------------------------------------------------------------------------
+    fragment B: all statements; class / def without parent classes (inheritance is the next stage) *)
+Fixpoint fragB_stmt (x : stmt) : bool :=
+  let stmts := fix go (l : list stmt) : bool := match l with [] => true | y :: r => fragB_stmt y && go r end in
+  match x with
+  | SInclude _ _ => false
+  | SAssert c m => frag_value c && frag_value m
+  | SClass _ targs ps b =>
+    match targs with Some l => forallb frag_targ l | None => true end
+    && match ps with [] => true | _ => false end && forallb frag_item b
+  | SDef nm _ ps b => frag_name nm && match ps with [] => true | _ => false end && forallb frag_item b
+  | SDefm nm _ ps => frag_name nm && forallb frag_classref ps
+  | SDefset _ _ b => stmts b
+  | SDefvar _ v | SDump v => frag_value v
+  | SForeach _ init b => match init with FeRange => true | FeValue v => frag_value v end && stmts b
+  | SIf c th el => frag_value c && stmts th && match el with Some b => stmts b | None => true end
+  | SLet vs b => forallb frag_value vs && stmts b
+  | SMulticlass _ targs ps b =>
+    match targs with Some l => forallb frag_targ l | None => true end
+    && forallb frag_classref ps && stmts b
+  end.
+Fixpoint fragB_stmts (l : list stmt) : bool :=
+  match l with [] => true | y :: r => fragB_stmt y && fragB_stmts r end.
+Lemma fragB_local : forall l,
+    (fix go (l : list stmt) : bool := match l with [] => true | y :: r => fragB_stmt y && go r end) l = fragB_stmts l.
+Proof. induction l as [|y r IH]; [reflexivity|]. simpl. now rewrite IH. Qed.
+
+Definition sim_B (files : list (list stmt)) (n : nat) : Prop := forall x f e s,
+    fragB_stmt x = true -> Pre2 f e s -> Stat s -> e_frames e <> [] ->
+    forallb resolved (fst (spec_stmt f e x)) = true ->
+    s_bad (snd (index_stmt files n x s)) = false ->
+    ResB f s (snd (index_stmt files n x s)) (fst (spec_stmt f e x)) (snd (spec_stmt f e x)).
+
+Lemma ResB_trans : forall f a b c E1 E2 e1 e2,
+    ResB f a b E1 e1 -> ResB f b c E2 e2 -> ResB f a c (E1 ++ E2) e2.
+Proof.
+  intros f a b c E1 E2 e1 e2 [U1 N1 [v1 S1] _ _ _] [U2 N2 [v2 S2] P2 T2 F2]. split; auto.
+  - rewrite U2, U1, rev_app_distr, app_assoc. reflexivity.
+  - congruence.
+  - exists (v2 ++ v1). now rewrite S2, S1, add_vars_app.
+Qed.
+
+Lemma stmtsB_sim : forall files n, sim_B files n -> forall l f e s,
+    fragB_stmts l = true -> Pre2 f e s -> Stat s -> e_frames e <> [] ->
+    forallb resolved (fst (spec_stmts f e l)) = true ->
+    s_bad (snd (iterM (index_stmt files n) l s)) = false ->
+    ResB f s (snd (iterM (index_stmt files n) l s)) (fst (spec_stmts f e l)) (snd (spec_stmts f e l)).
+Proof.
+  intros files n IH l. induction l as [|y r IHl]; intros f e s Hf P T He HR Hb.
+  - simpl. split; auto. exists []. now rewrite add_vars_nil.
+  - simpl in Hf. apply andb_true_iff in Hf. destruct Hf as [Hf1 Hf2].
+    rewrite spec_stmts_cons in *. simpl in Hb |- *. unfold seq in *.
+    destruct (spec_stmt f e y) as [ev1 e1] eqn:E1.
+    destruct (spec_stmts f e1 r) as [ev2 e2] eqn:E2. simpl in *.
+    rewrite forallb_app in HR. apply andb_true_iff in HR. destruct HR as [HR1 HR2].
+    assert (Hb1 : s_bad (snd (index_stmt files n y s)) = false)
+      by (eapply (bad_false_before _ (iterM (index_stmt files n) r)); [apply BM_stmts|exact Hb]).
+    pose proof (IH y f e s Hf1 P T He) as R1. rewrite E1 in R1. simpl in R1. specialize (R1 HR1 Hb1).
+    pose proof R1 as [_ _ _ P1 T1 F1].
+    pose proof (IHl f e1 (snd (index_stmt files n y s)) Hf2 P1 T1 F1) as R2.
+    rewrite E2 in R2. simpl in R2. specialize (R2 HR2 Hb).
+    eapply ResB_trans; eassumption.
+Qed.
+
+Lemma Stat_same_scopes : forall s s', Stat s -> s_scopes s' = s_scopes s -> s_mcs s' = s_mcs s -> Stat s'.
+Proof.
+  intros s s' [A B C] Hs Hm. split.
+  - unfold current_record_id in *. now rewrite Hs.
+  - intros c mid Hin Hk. rewrite Hs in Hin. rewrite Hm. apply (B c mid Hin Hk).
+  - now rewrite Hs.
+Qed.
+Lemma ResB_of_Step : forall f e s s' E,
+    Step s s' E -> Pre2 f e s -> Stat s -> e_frames e <> [] -> ResB f s s' E e.
+Proof.
+  intros f e s s' E St P T He. pose proof St as [U V S N]. split; auto.
+  - exists []. now rewrite add_vars_nil.
+  - eapply Pre2_Step; eassumption.
+  - destruct V as (_ & Hm & _). eapply Stat_same_scopes; eassumption.
+Qed.
+
+Lemma scoped_final : forall A k (body : M A) s vs,
+    s_scopes (snd (body (pushed k s))) = add_vars vs (s_scopes (pushed k s)) ->
+    snd (scoped k body s) = set_scopes (s_scopes s) (snd (body (pushed k s))).
+Proof.
+  intros A k body s vs H. unfold scoped, seq, bind, try_, push_scope, upd; simpl. fold (pushed k s).
+  destruct (body (pushed k s)) as [o s2]; simpl in *. unfold lift, pop_scope. rewrite H. reflexivity.
+Qed.
+Lemma sbs_set_scopes : forall sc s, same_but_scopes (set_scopes sc s) s.
+Proof. intros. repeat split. Qed.
+Lemma same_globals_leave : forall e e1, same_globals e1 (leave e e1).
+Proof. intros. repeat split. Qed.
+
+Section CasesB.
+  Variable files : list (list stmt).
+  Variable n : nat.
+  Hypothesis IH : sim_B files n.
+
+  Lemma block_B : forall b f e s,
+      fragB_stmts b = true -> Pre2 f e s -> Stat s -> e_frames e <> [] ->
+      forallb resolved (fst (spec_stmts f (push_vars e []) b)) = true ->
+      s_bad (snd (scoped KBlock (iterM (index_stmt files n) b) s)) = false ->
+      ResB f s (snd (scoped KBlock (iterM (index_stmt files n) b) s))
+           (fst (spec_stmts f (push_vars e []) b)) (leave e (snd (spec_stmts f (push_vars e []) b))).
+  Proof.
+    intros b f e s Hf P T He HR Hb.
+    assert (Hb' := Hb). apply scoped_bad in Hb'.
+    pose proof (stmtsB_sim files n IH b f (push_vars e []) (pushed KBlock s) Hf
+                           (Pre2_pushed f e s KBlock P eq_refl) (Stat_pushed KBlock s T eq_refl)) as R.
+    destruct R as [U N [vs Sc] P1 T1 F1]; auto; [discriminate|].
+    change (snd (scoped KBlock (iterM (index_stmt files n) b) s))
+      with (snd (index_stmt files (S n) (SLet [] b) s)).
+    eapply (finish_block_like files (S n) (SLet [] b) f e _ _ s); eauto.
+    - apply same_globals_leave.
+    - apply Pre2_g. exact P1.
+    - change (snd (index_stmt files (S n) (SLet [] b) s)) with (snd (scoped KBlock (iterM (index_stmt files n) b) s)).
+      rewrite (scoped_final _ KBlock _ s vs Sc). apply sbs_set_scopes.
+  Qed.
+End CasesB.
+
+Lemma Stat_with_var : forall s l c t, Stat s -> s_scopes s = c :: t -> Stat (with_var s l).
+Proof.
+  intros s l c t [A B C] Hs. destruct (with_var_facts s l c t Hs) as (Hsc & _ & _ & _ & V).
+  destruct V as (_ & Hm & _). split.
+  - unfold current_record_id in *. rewrite Hsc, Hs in *. simpl in *. exact A.
+  - intros c0 mid Hin Hk. rewrite Hsc in Hin. rewrite Hm. destruct Hin as [<-|Hin].
+    + apply (B c mid); [rewrite Hs; now left|exact Hk].
+    + apply (B c0 mid); [rewrite Hs; now right|exact Hk].
+  - rewrite Hsc. discriminate.
+Qed.
+
+Section CasesB2.
+  Variable files : list (list stmt).
+  Variable n : nat.
+  Hypothesis IH : sim_B files n.
+
+  Lemma fragB_of_local : forall l,
+      (fix go (l : list stmt) : bool := match l with [] => true | y :: r => fragB_stmt y && go r end) l = true ->
+      fragB_stmts l = true.
+  Proof. intros l H. now rewrite fragB_local in H. Qed.
+
+  Lemma caseB_assert : forall c m f e s,
+      frag_value c = true -> frag_value m = true -> Pre2 f e s -> Stat s -> e_frames e <> [] ->
+      forallb resolved (spec_value f e m ++ spec_value f e c) = true ->
+      s_bad (snd (index_stmt files (S n) (SAssert c m) s)) = false ->
+      ResB f s (snd (index_stmt files (S n) (SAssert c m) s)) (spec_value f e m ++ spec_value f e c) e.
+  Proof.
+    intros c m f e s Hfc Hfm P T He HR Hb.
+    rewrite forallb_app in HR. apply andb_true_iff in HR. destruct HR as [HR1 HR2].
+    simpl in Hb |- *. unfold seq in *. simpl in *.
+    assert (Hb1 : s_bad (snd (index_value n m s)) = false)
+      by (eapply (bad_false_before _ (index_value n c)); [apply BM_index_value|exact Hb]).
+    pose proof (value_agrees n m f e s Hfm (Pre2_Pre _ _ _ P) HR1 Hb1) as S1.
+    pose proof (value_agrees n c f e _ Hfc (Pre_Step _ _ _ _ _ (Pre2_Pre _ _ _ P) S1) HR2 Hb) as S2.
+    apply ResB_of_Step; auto. eapply Step_trans; eassumption.
+  Qed.
+
+  Lemma caseB_defvar : forall i v f e s,
+      frag_value v = true -> Pre2 f e s -> Stat s -> e_frames e <> [] ->
+      forallb resolved (spec_value f e v) = true ->
+      s_bad (snd (index_defvar n i v s)) = false ->
+      ResB f s (snd (index_defvar n i v s)) (spec_value f e v) (add_var e (i_name i) (at_file f (i_rng i))).
+  Proof.
+    intros i v f e s Hf P T He HR Hb.
+    unfold index_defvar, bind, here, get, try_ in *. simpl in *.
+    destruct (index_value n v s) as [o s1] eqn:E1. simpl in *.
+    set (l := mkLeaf LVar (i_name i) match o with Some t => t | None => MUnknown end false
+                     {| r_file := current_file s; r_lo := r_lo (i_rng i); r_hi := r_hi (i_rng i) |}) in *.
+    assert (Hb1 : s_bad s1 = false).
+    { eapply (bad_false_before _ (scopes_add_variable l)); [bm_prim|exact Hb]. }
+    assert (S1 : Step s s1 (spec_value f e v)).
+    { replace s1 with (snd (index_value n v s)) by now rewrite E1. apply value_agrees; auto.
+      - now apply Pre2_Pre.
+      - now rewrite E1. }
+    assert (P1 : Pre2 f e s1) by (eapply Pre2_Step; eassumption).
+    assert (T1 : Stat s1).
+    { destruct S1 as [_ (_ & Hm & _) Sc _]. eapply Stat_same_scopes; eassumption. }
+    destruct (s_scopes s1) as [|c t] eqn:Esc; [destruct T1 as [_ _ Hne]; congruence|].
+    fold (with_var s1 l).
+    assert (Hl : l = mkLeaf LVar (i_name i) match o with Some t => t | None => MUnknown end false
+                        (mkR f (r_lo (i_rng i)) (r_hi (i_rng i)))).
+    { unfold l. now rewrite (p2_file f e s P). }
+    destruct (with_var_facts s1 l c t Esc) as (Hsc & _ & Hu & Hn & _).
+    destruct S1 as [U1 _ Sc1 N1].
+    split.
+    - rewrite Hu. exact U1.
+    - rewrite Hn. exact N1.
+    - exists [(lf_name l, lenN (s_leaves s1))]. rewrite Hsc, <- Sc1, Esc. reflexivity.
+    - rewrite Hl. apply (Pre2_with_var f e s1 i _ c t); assumption.
+    - eapply Stat_with_var; eassumption.
+    - unfold add_var. destruct (e_frames e); [congruence|discriminate].
+  Qed.
+End CasesB2.
+
+(** ---- steps that may also add a parent to a multiclass (defm / multiclass parent lists) *)
+Definition MR (a b : list mcd) : Prop :=
+  forall id m, nthN a id = Some m ->
+               exists m', nthN b id = Some m' /\ mc_loc m' = mc_loc m /\ mc_targs m' = mc_targs m.
+Definition VRm (s s' : st) : Prop :=
+  s_recs s' = s_recs s /\ MR (s_mcs s) (s_mcs s') /\ s_nclass s' = s_nclass s /\ s_ndef s' = s_ndef s /\
+  s_nmc s' = s_nmc s /\ s_ndset s' = s_ndset s /\ s_trace s' = s_trace s /\
+  (exists ext, s_leaves s' = s_leaves s ++ ext).
+Lemma MR_refl : forall a, MR a a. Proof. intros a id m H. eauto. Qed.
+Lemma MR_trans : forall a b c, MR a b -> MR b c -> MR a c.
+Proof.
+  intros a b c H1 H2 id m H. destruct (H1 _ _ H) as [m1 [A [B C]]]. destruct (H2 _ _ A) as [m2 [A2 [B2 C2]]].
+  exists m2. repeat split; congruence.
+Qed.
+Lemma VR_VRm : forall s s', VR s s' -> VRm s s'.
+Proof. intros s s' (A & B & C & D & E & F & G & H). repeat split; auto. rewrite B. apply MR_refl. Qed.
+Lemma VRm_refl : forall s, VRm s s. Proof. intros. apply VR_VRm, VR_refl. Qed.
+Lemma VRm_trans : forall a b c, VRm a b -> VRm b c -> VRm a c.
+Proof.
+  intros a b c (A1 & A2 & A3 & A4 & A5 & A6 & A7 & [x1 A8]) (B1 & B2 & B3 & B4 & B5 & B6 & B7 & [x2 B8]).
+  repeat split; try congruence; [eapply MR_trans; eassumption|].
+  exists (x1 ++ x2). now rewrite B8, A8, app_assoc.
+Qed.
+
+Lemma scope_find_MR : forall s s' c nm,
+    s_recs s' = s_recs s -> MR (s_mcs s) (s_mcs s') ->
+    (forall mid, sc_kind c = KMulticlass mid -> nthN (s_mcs s) mid <> None) ->
+    scope_find s' c nm = scope_find s c nm.
+Proof.
+  intros s s' c nm Hr Hm Hv. unfold scope_find, rec_fuel. rewrite Hr.
+  destruct (sc_find_variable c nm); [reflexivity|].
+  destruct (sc_kind c) eqn:Ek; try reflexivity.
+  destruct (nthN (s_mcs s) id) as [m|] eqn:E; [|exfalso; now apply (Hv id)].
+  destruct (Hm _ _ E) as [m' [A [_ C]]]. now rewrite A, C.
+Qed.
+
+Lemma define_loc_VRm : forall s s' sym d, VRm s s' -> define_loc s sym = Some d -> define_loc s' sym = Some d.
+Proof.
+  intros s s' sym d (Hr & Hm & _ & _ & _ & _ & _ & [ext Hl]) H. destruct sym; simpl in *.
+  - now rewrite Hr.
+  - destruct (nthN (s_mcs s) i) as [m|] eqn:E; [|discriminate]. destruct (Hm _ _ E) as [m' [A [B _]]].
+    rewrite A. simpl in *. congruence.
+  - rewrite Hl. destruct (nthN (s_leaves s) i) eqn:E; [|discriminate]. now rewrite (nthN_app_some _ _ ext _ _ E).
+Qed.
+
+Lemma Pre2_VRm : forall f e s s', Pre2 f e s -> Stat s -> VRm s s' -> s_scopes s' = s_scopes s -> Pre2 f e s'.
+Proof.
+  intros f e s s' [F L1 L2 D1 D2 S1 S2 C1 C2 M1 M2] [_ Hv _] V Hs.
+  pose proof V as (Hr & Hm & Hc & Hd & Hmc & Hds & Ht & Hl).
+  assert (FL : forall nm, find_local s' nm = find_local s nm).
+  { intros nm. unfold find_local. rewrite Hs.
+    assert (G : forall l, (forall c, In c l -> In c (s_scopes s)) ->
+                          find_map (fun c => scope_find s' c nm) l = find_map (fun c => scope_find s c nm) l).
+    { induction l as [|c t IHl]; intros Hin; simpl; [reflexivity|].
+      rewrite (scope_find_MR s s' c nm Hr Hm); [|intros mid Hk; apply (Hv c mid); [apply Hin; now left|exact Hk]].
+      destruct (scope_find s c nm); [reflexivity|]. apply IHl. intros; apply Hin; now right. }
+    apply G. auto. }
+  split.
+  - unfold current_file in *. now rewrite Ht.
+  - intros nm d H. destruct (L1 nm d H) as [sym [A B]]. exists sym. rewrite FL. split; [exact A|].
+    now apply (define_loc_VRm s s').
+  - intros nm H. rewrite FL. now apply L2.
+  - intros nm d H. destruct (D1 nm d H) as [id [A B]]. exists id. unfold find_def in *. rewrite Hd.
+    split; [exact A|]. now apply (define_loc_VRm s s').
+  - intros nm H. unfold find_def in *. rewrite Hd. now apply D2.
+  - intros nm d H. destruct (S1 nm d H) as [id [A B]]. exists id. unfold find_defset in *. rewrite Hds.
+    split; [exact A|]. now apply (define_loc_VRm s s').
+  - intros nm H. unfold find_defset in *. rewrite Hds. now apply S2.
+  - intros nm d H. specialize (C1 nm d H). unfold class_view, find_class in *. now rewrite Hc, Hr.
+  - intros nm H. unfold find_class in *. rewrite Hc. now apply C2.
+  - intros nm d H. specialize (M1 nm d H). unfold mc_view, find_multiclass in *. rewrite Hmc.
+    destruct (alookup nm (s_nmc s)) as [id|]; [|discriminate].
+    destruct (nthN (s_mcs s) id) as [m|] eqn:E; [|discriminate]. destruct (Hm _ _ E) as [m' [A [B _]]].
+    rewrite A. simpl in *. congruence.
+  - intros nm H. unfold find_multiclass in *. rewrite Hmc. now apply M2.
+Qed.
+
+Lemma Stat_VRm : forall s s', Stat s -> VRm s s' -> s_scopes s' = s_scopes s -> Stat s'.
+Proof.
+  intros s s' [A B C] (_ & Hm & _) Hs. split.
+  - unfold current_record_id in *. now rewrite Hs.
+  - intros c mid Hin Hk. rewrite Hs in Hin. specialize (B c mid Hin Hk).
+    destruct (nthN (s_mcs s) mid) as [m|] eqn:E; [|congruence]. destruct (Hm _ _ E) as [m' [A' _]]. congruence.
+  - now rewrite Hs.
+Qed.
+
+Record StepM (s s' : st) (E : list ev) : Prop := mkStepM {
+  sm_uses : s_uses s' = rev E ++ s_uses s;
+  sm_vr : VRm s s';
+  sm_scopes : s_scopes s' = s_scopes s;
+  sm_nf : nf s' = nf s }.
+Lemma Step_StepM : forall s s' E, Step s s' E -> StepM s s' E.
+Proof. intros s s' E [U V S N]. split; auto. now apply VR_VRm. Qed.
+Lemma StepM_refl : forall s, StepM s s []. Proof. intros. apply Step_StepM, Step_refl. Qed.
+Lemma StepM_trans : forall a b c E1 E2, StepM a b E1 -> StepM b c E2 -> StepM a c (E1 ++ E2).
+Proof.
+  intros a b c E1 E2 [U1 V1 S1 N1] [U2 V2 S2 N2]. split.
+  - rewrite U2, U1, rev_app_distr, app_assoc. reflexivity.
+  - eapply VRm_trans; eassumption.
+  - congruence.
+  - congruence.
+Qed.
+Lemma ResB_of_StepM : forall f e s s' E,
+    StepM s s' E -> Pre2 f e s -> Stat s -> e_frames e <> [] -> ResB f s s' E e.
+Proof.
+  intros f e s s' E [U V Sc N] P T He. split; auto.
+  - exists []. now rewrite add_vars_nil.
+  - eapply Pre2_VRm; eassumption.
+  - eapply Stat_VRm; eassumption.
+Qed.
+
+(** ---- references to multiclasses (parents of a multiclass, of a defm) *)
+Lemma mcref_sim : forall n c f e s,
+    frag_classref c = true -> Pre f e s -> forallb resolved (spec_mcref f e c) = true ->
+    s_bad (snd (resolve_class_ref_as_multiclass n c s)) = false ->
+    Step s (snd (resolve_class_ref_as_multiclass n c s)) (spec_mcref f e c).
+Proof.
+  intros n [i args r] f e s Hf P HR Hb. simpl in Hf.
+  change (spec_mcref f e (CRef i args r)) with ((at_file f (i_rng i), lookup_mc e (i_name i)) :: spec_args f e args) in *.
+  simpl in HR. apply andb_true_iff in HR. destruct HR as [HR1 HR2]. unfold resolved in HR1; simpl in HR1.
+  destruct (lookup_mc e (i_name i)) as [d|] eqn:El; [|discriminate].
+  pose proof (pre_mc_some f e s P _ _ El) as Hc. unfold mc_view in Hc.
+  simpl in Hb |- *. unfold bind at 1 in Hb. unfold bind at 1. unfold here, get in *. simpl in *.
+  unfold bind at 1 in Hb. unfold bind at 1. unfold state, get in *. simpl in *.
+  destruct (find_multiclass s (i_name i)) as [mid|] eqn:Ef; [|discriminate].
+  unfold seq at 1 in Hb. unfold seq at 1.
+  set (loc := {| r_file := current_file s; r_lo := r_lo (i_rng i); r_hi := r_hi (i_rng i) |}) in *.
+  pose proof (Step_add_reference s (SyMc mid) loc) as S1.
+  set (s1 := snd (add_reference (SyMc mid) loc s)) in *.
+  assert (E1 : define_loc s (SyMc mid) = Some d) by exact Hc.
+  assert (Hmc : nthN (s_mcs s1) mid <> None).
+  { destruct S1 as [_ (_ & Hm & _) _ _]. rewrite Hm. destruct (nthN (s_mcs s) mid); discriminate. }
+  unfold bind at 1 in Hb. unfold bind at 1. simpl in *.
+  unfold bind at 1 in Hb. unfold bind at 1. unfold lift at 1 in Hb. unfold lift at 1.
+  destruct (nthN (s_mcs s1) mid) as [mc|] eqn:Emc; [|congruence].
+  assert (P1 : Pre f e s1) by (eapply Pre_Step; eassumption).
+  unfold bind at 1 in Hb. unfold bind at 1. unfold index_args in *.
+  assert (S2 : s_bad (snd (mapM_opt (index_arg n) args s1)) = false ->
+               Step s1 (snd (mapM_opt (index_arg n) args s1)) (flat_map (spec_arg f e) args)).
+  { intros Hb2. destruct (mapM_opt_state _ _ (index_arg n) args s1) as [E _]. rewrite E in *.
+    apply (iter_sim _ _ (index_arg n) (spec_arg f e) f e); auto.
+    - intros; apply BM_index_arg.
+    - intros x s0 Hin P0 HR0 Hb0. apply arg_agrees; auto. eapply forallb_In; eassumption. }
+  destruct (mapM_opt (index_arg n) args s1) as [[avs|] s2] eqn:Em; simpl in *.
+  2:{ destruct (mapM_opt_state _ _ (index_arg n) args s1) as [_ Hsome]. rewrite Em in Hsome. simpl in Hsome. congruence. }
+  unfold seq in Hb |- *. simpl in *.
+  assert (Hb2 : s_bad s2 = false).
+  { eapply (bad_false_before _ (emit (check_template_args s2 (targ_leaves s1 (mc_targs mc)) avs r))); [|exact Hb].
+    unfold emit. apply (resp_iterM BadMono BM_refl BM_trans). intros; apply BM_err. }
+  eapply Step_eq.
+  - eapply Step_trans; [exact S1|]. eapply Step_trans; [apply S2; exact Hb2|].
+    apply Step_emit. intros d0 Hd0. eapply cta_kinds. exact Hd0.
+  - simpl. rewrite E1, app_nil_r. unfold at_file, loc. now rewrite (pre_file f e s P).
+Qed.
+
+Lemma BM_resolve_mc : forall n c, resp BadMono (resolve_class_ref_as_multiclass n c).
+Proof. intros. apply (r_resolve_multiclass BadMono BM_refl BM_trans); bm_prim. Qed.
+
+Lemma StepM_mc_add_parent : forall s mid p, StepM s (snd (multiclass_mut mid (mc_add_parent p) s)) [].
+Proof.
+  intros s mid p. unfold multiclass_mut. destruct (nthN (s_mcs s) mid) as [m|] eqn:E.
+  - split; [reflexivity| |reflexivity|reflexivity].
+    split; [reflexivity|]. split.
+    + intros id m0 H. cbn [snd s_mcs set_mcs]. rewrite nthN_set_nth.
+      destruct (N.eqb mid id); [rewrite H; simpl; eauto|eauto].
+    + repeat split; auto. exists []. now rewrite app_nil_r.
+  - split; [reflexivity| |reflexivity|reflexivity]. repeat split; auto; [apply MR_refl|exists []; now rewrite app_nil_r].
+Qed.
+
+Lemma mcrefs_local : forall f e l,
+    (fix go (e : env) (l : list classref) : list ev :=
+       match l with [] => [] | c :: r => spec_mcref f e c ++ go e r end) e l = flat_map (spec_mcref f e) l.
+Proof. intros f e l. induction l as [|c r IH]; [reflexivity|]. simpl. now rewrite IH. Qed.
+
+(** `ParentClassList::index` outside a record: the references are resolved as multiclasses *)
+Lemma parents_mc_sim : forall n ps f e s,
+    forallb frag_classref ps = true -> Pre2 f e s -> Stat s ->
+    (current_multiclass_id s <> None \/ current_defm_id s <> None) ->
+    forallb resolved (flat_map (spec_mcref f e) ps) = true ->
+    s_bad (snd (index_parents n ps s)) = false ->
+    StepM s (snd (index_parents n ps s)) (flat_map (spec_mcref f e) ps).
+Proof.
+  intros n ps f e s Hf P T Hk HR Hb. unfold index_parents in *.
+  unfold bind at 1 in Hb. unfold bind at 1. unfold state, get in *. simpl in *.
+  rewrite (sta_norec s T) in *.
+  (* both remaining branches iterate over the references; they differ in what follows a resolved one *)
+  assert (G : forall (after : option N -> M unit),
+             (forall o s0, StepM s0 (snd (after o s0)) []) -> (forall o, resp BadMono (after o)) ->
+             forall l s0, forallb frag_classref l = true -> Pre2 f e s0 -> Stat s0 ->
+                          forallb resolved (flat_map (spec_mcref f e) l) = true ->
+                          s_bad (snd (iterM (fun cr => bind (try_ (resolve_class_ref_as_multiclass n cr)) after) l s0)) = false ->
+                          StepM s0 (snd (iterM (fun cr => bind (try_ (resolve_class_ref_as_multiclass n cr)) after) l s0))
+                                (flat_map (spec_mcref f e) l)).
+  { intros after Ha HBa l. induction l as [|c r IHl]; intros s0 Hfl P0 T0 HR0 Hb0; simpl; [apply StepM_refl|].
+    simpl in Hfl. apply andb_true_iff in Hfl. destruct Hfl as [Hf1 Hf2].
+    simpl in HR0. rewrite forallb_app in HR0. apply andb_true_iff in HR0. destruct HR0 as [HR1 HR2].
+    simpl in Hb0. unfold seq in *.
+    set (g := fun cr => bind (try_ (resolve_class_ref_as_multiclass n cr)) after) in *.
+    assert (BMg : forall cr, resp BadMono (g cr)).
+    { intros cr. unfold g. apply (resp_bind BadMono BM_trans); [apply (resp_try BadMono), BM_resolve_mc|apply HBa]. }
+    assert (Hb1 : s_bad (snd (g c s0)) = false).
+    { eapply (bad_false_before _ (iterM g r)); [|exact Hb0]. apply (resp_iterM BadMono BM_refl BM_trans). intros; apply BMg. }
+    assert (S1 : StepM s0 (snd (g c s0)) (spec_mcref f e c)).
+    { unfold g, bind, try_ in *. destruct (resolve_class_ref_as_multiclass n c s0) as [o s1] eqn:Er. simpl in *.
+      assert (Hbr : s_bad s1 = false) by (eapply (bad_false_before _ (after o)); [apply HBa|exact Hb1]).
+      rewrite <- (app_nil_r (spec_mcref f e c)). eapply StepM_trans; [|apply Ha].
+      apply Step_StepM. replace s1 with (snd (resolve_class_ref_as_multiclass n c s0)) by now rewrite Er.
+      apply mcref_sim; auto; [now apply Pre2_Pre|now rewrite Er]. }
+    eapply StepM_trans; [exact S1|]. destruct S1 as [_ V1 Sc1 _].
+    apply IHl; auto; [eapply Pre2_VRm; eassumption|eapply Stat_VRm; eassumption]. }
+  destruct (current_multiclass_id s) as [mid|] eqn:Em.
+  - apply (G (fun o => match o with Some p => multiclass_mut mid (mc_add_parent p) | None => ret tt end)); auto.
+    + intros [p|] s0; [apply StepM_mc_add_parent|apply StepM_refl].
+    + intros [p|]; [bm_prim|apply (resp_ret BadMono BM_refl)].
+  - destruct (current_defm_id s) as [did|] eqn:Ed; [|destruct Hk; congruence].
+    (* the defm branch iterates `resolve` directly: the same loop with a trivial continuation *)
+    assert (Eq : forall l s0, snd (iterM (fun cr => resolve_class_ref_as_multiclass n cr) l s0)
+                              = snd (iterM (fun cr => bind (try_ (resolve_class_ref_as_multiclass n cr)) (fun _ => ret tt)) l s0)).
+    { induction l as [|c r IHl]; intros s0; simpl; [reflexivity|]. unfold seq. rewrite IHl.
+      unfold bind, try_. destruct (resolve_class_ref_as_multiclass n c s0); reflexivity. }
+    rewrite Eq in *. apply (G (fun _ => ret tt)); auto.
+    + intros; apply StepM_refl.
+    + intros; apply (resp_ret BadMono BM_refl).
+Qed.
+
+Section CasesB3.
+  Variable files : list (list stmt).
+  Variable n : nat.
+  Hypothesis IH : sim_B files n.
+
+  Lemma caseB_dump : forall v f e s,
+      frag_value v = true -> Pre2 f e s -> Stat s -> e_frames e <> [] ->
+      forallb resolved (spec_value f e v) = true ->
+      s_bad (snd (index_stmt files (S n) (SDump v) s)) = false ->
+      ResB f s (snd (index_stmt files (S n) (SDump v) s)) (spec_value f e v) e.
+  Proof.
+    intros v f e s Hf P T He HR Hb. simpl in Hb |- *. unfold seq in *. simpl in *.
+    apply ResB_of_Step; auto. apply value_agrees; auto. now apply Pre2_Pre.
+  Qed.
+
+  Lemma caseB_let : forall vs b f e s,
+      forallb frag_value vs = true -> fragB_stmts b = true -> Pre2 f e s -> Stat s -> e_frames e <> [] ->
+      forallb resolved (fst (spec_stmt f e (SLet vs b))) = true ->
+      s_bad (snd (index_stmt files (S n) (SLet vs b) s)) = false ->
+      ResB f s (snd (index_stmt files (S n) (SLet vs b) s)) (fst (spec_stmt f e (SLet vs b))) (snd (spec_stmt f e (SLet vs b))).
+  Proof.
+    intros vs b f e s Hfv Hfb P T He HR Hb. rewrite spec_let in *.
+    destruct (spec_stmts f (push_vars e []) b) as [ev1 e1] eqn:Eb. simpl in HR |- *.
+    rewrite forallb_app in HR. apply andb_true_iff in HR. destruct HR as [HRv HR1].
+    simpl in Hb |- *. unfold seq at 1 in Hb. unfold seq at 1.
+    set (s1 := snd (iterM (index_value n) vs s)) in *.
+    assert (Hb1 : s_bad s1 = false)
+      by (eapply (bad_false_before _ (scoped KBlock (iterM (index_stmt files n) b))); [apply BM_block|exact Hb]).
+    assert (S0 : Step s s1 (spec_values f e vs)).
+    { unfold spec_values, s1. apply (iter_sim _ _ (index_value n) (spec_value f e) f e); auto.
+      - intros; apply BM_index_value.
+      - intros x s0 Hin P0 HR0 Hb0. apply value_agrees; auto. eapply forallb_In; eassumption.
+      - now apply Pre2_Pre. }
+    pose proof (ResB_of_Step f e s s1 _ S0 P T He) as R0. pose proof R0 as [_ _ _ P1 T1 _].
+    pose proof (block_B files n IH b f e s1 Hfb P1 T1 He) as R1. rewrite Eb in R1. simpl in R1.
+    eapply ResB_trans; [exact R0|apply R1; assumption].
+  Qed.
+
+  Lemma caseB_if : forall c th el f e s,
+      frag_value c = true -> fragB_stmts th = true -> match el with Some b => fragB_stmts b | None => true end = true ->
+      Pre2 f e s -> Stat s -> e_frames e <> [] ->
+      forallb resolved (fst (spec_stmt f e (SIf c th el))) = true ->
+      s_bad (snd (index_stmt files (S n) (SIf c th el) s)) = false ->
+      ResB f s (snd (index_stmt files (S n) (SIf c th el) s)) (fst (spec_stmt f e (SIf c th el))) (snd (spec_stmt f e (SIf c th el))).
+  Proof.
+    intros c th el f e s Hfc Hft Hfe P T He HR Hb. rewrite spec_if in *.
+    destruct (spec_stmts f (push_vars e []) th) as [ev1 e1] eqn:Et.
+    simpl in Hb |- *. unfold seq at 1 in Hb. unfold seq at 1.
+    assert (BMrest : resp BadMono (iterM (fun body => scoped KBlock (iterM (index_stmt files n) body))
+                                        (th :: match el with Some e0 => [e0] | None => [] end))).
+    { apply (resp_iterM BadMono BM_refl BM_trans). intros; apply BM_block. }
+    assert (Hbc : s_bad (snd (index_value n c s)) = false) by (eapply bad_false_before; [exact BMrest|exact Hb]).
+    simpl in Hb |- *. unfold seq at 1 in Hb. unfold seq at 1.
+    set (s1 := snd (index_value n c s)) in *.
+    destruct el as [eb|].
+    - simpl in Hb |- *. try unfold seq at 1 in Hb. try unfold seq at 1. simpl in Hb |- *.
+      set (s2 := snd (scoped KBlock (iterM (index_stmt files n) th) s1)) in *.
+      assert (Hb2 : s_bad s2 = false)
+        by (eapply (bad_false_before _ (scoped KBlock (iterM (index_stmt files n) eb))); [apply BM_block|exact Hb]).
+      destruct (spec_stmts f (push_vars (leave e e1) []) eb) as [ev2 e2] eqn:Ee. simpl in HR |- *.
+      rewrite forallb_app in HR. apply andb_true_iff in HR. destruct HR as [HRc HR].
+      rewrite forallb_app in HR. apply andb_true_iff in HR. destruct HR as [HR1 HR2].
+      pose proof (value_agrees n c f e s Hfc (Pre2_Pre _ _ _ P) HRc Hbc) as S0. fold s1 in S0.
+      pose proof (ResB_of_Step f e s s1 _ S0 P T He) as R0. pose proof R0 as [_ _ _ P1 T1 _].
+      pose proof (block_B files n IH th f e s1 Hft P1 T1 He) as R1. rewrite Et in R1. simpl in R1.
+      specialize (R1 HR1 Hb2). fold s2 in R1. pose proof R1 as [_ _ _ P2 T2 F2].
+      pose proof (block_B files n IH eb f (leave e e1) s2 Hfe P2 T2 F2) as R2. rewrite Ee in R2. simpl in R2.
+      specialize (R2 HR2 Hb).
+      replace (leave e e2) with (leave (leave e e1) e2) by reflexivity.
+      eapply ResB_trans; [exact R0|]. eapply ResB_trans; [exact R1|exact R2].
+    - simpl in Hb, HR |- *.
+      rewrite forallb_app in HR. apply andb_true_iff in HR. destruct HR as [HRc HR].
+      rewrite app_nil_r in *.
+      pose proof (value_agrees n c f e s Hfc (Pre2_Pre _ _ _ P) HRc Hbc) as S0. fold s1 in S0.
+      pose proof (ResB_of_Step f e s s1 _ S0 P T He) as R0. pose proof R0 as [_ _ _ P1 T1 _].
+      pose proof (block_B files n IH th f e s1 Hft P1 T1 He) as R1. rewrite Et in R1. simpl in R1.
+      eapply ResB_trans; [exact R0|apply R1; assumption].
+  Qed.
+End CasesB3.
+
+Lemma uses_add_leaf : forall l s, s_uses (snd (add_leaf l s)) = s_uses s /\ nf (snd (add_leaf l s)) = nf s
+                                 /\ s_scopes (snd (add_leaf l s)) = s_scopes s /\ s_mcs (snd (add_leaf l s)) = s_mcs s.
+Proof. intros. unfold add_leaf; simpl. unfold add_pos, nf. destruct (rng_empty (lf_loc l)); repeat split. Qed.
+
+Section CasesB4.
+  Variable files : list (list stmt).
+  Variable n : nat.
+  Hypothesis IH : sim_B files n.
+
+  Lemma caseB_foreach : forall i init b f e s,
+      match init with FeRange => true | FeValue v => frag_value v end = true -> fragB_stmts b = true ->
+      Pre2 f e s -> Stat s -> e_frames e <> [] ->
+      forallb resolved (fst (spec_stmt f e (SForeach i init b))) = true ->
+      s_bad (snd (index_stmt files (S n) (SForeach i init b) s)) = false ->
+      ResB f s (snd (index_stmt files (S n) (SForeach i init b) s))
+           (fst (spec_stmt f e (SForeach i init b))) (snd (spec_stmt f e (SForeach i init b))).
+  Proof.
+    intros i init b f e s Hfi Hfb P T He HR Hb.
+    pose proof (finish_block_like files (S n) (SForeach i init b) f e) as FIN.
+    set (final := snd (index_stmt files (S n) (SForeach i init b) s)) in *.
+    rewrite spec_foreach in *.
+    set (e2 := push_vars e [(i_name i, at_file f (i_rng i))]) in *.
+    destruct (spec_stmts f e2 b) as [ev1 e1] eqn:Eb. simpl in HR |- *.
+    rewrite forallb_app in HR. apply andb_true_iff in HR. destruct HR as [HR0 HR1].
+    set (ev0 := match init with FeRange => [] | FeValue v => spec_value f e v end) in *.
+    (* run the model up to the body *)
+    set (minit := match init with
+                  | FeRange => ret MInt
+                  | FeValue v => bind (index_value n v) (fun t => lift (element_typ t))
+                  end).
+    set (loc := {| r_file := current_file s; r_lo := r_lo (i_rng i); r_hi := r_hi (i_rng i) |}).
+    set (lf := fun o : option mty => mkLeaf LVar (i_name i) match o with Some t => t | None => MUnknown end false loc).
+    set (k := fun s1 : st => KForeach (i_name i) (lenN (s_leaves s1))).
+    assert (Efin : final = snd (scoped (k (snd (minit s))) (iterM (index_stmt files n) b)
+                                       (snd (add_leaf (lf (fst (minit s))) (snd (minit s)))))).
+    { unfold final. simpl. unfold bind at 1. unfold here, get. simpl. unfold bind at 1. unfold try_.
+      fold minit. destruct (minit s) as [o s1]. simpl. unfold bind at 1. reflexivity. }
+    rewrite Efin in Hb |- *.
+    assert (BMi : resp BadMono minit).
+    { unfold minit. destruct init; [apply (resp_ret BadMono BM_refl)|].
+      apply (resp_bind BadMono BM_trans); [apply BM_index_value|intros; apply (resp_lift BadMono BM_refl)]. }
+    destruct (minit s) as [o s1] eqn:Ei. simpl in *.
+    set (s2 := snd (add_leaf (lf o) s1)) in *.
+    assert (Hb2 : s_bad s2 = false)
+      by (eapply (bad_false_before _ (scoped (k s1) (iterM (index_stmt files n) b))); [apply BM_block|exact Hb]).
+    assert (Hb1 : s_bad s1 = false) by (eapply (bad_false_before _ (add_leaf (lf o))); [bm_prim|exact Hb2]).
+    assert (S0 : Step s s1 ev0).
+    { unfold minit, ev0 in *. destruct init as [|v].
+      - injection Ei as _ <-. apply Step_refl.
+      - unfold bind in Ei. destruct (index_value n v s) as [[t|] s1'] eqn:Ev; simpl in Ei;
+          injection Ei as _ <-; replace s1' with (snd (index_value n v s)) by (now rewrite Ev);
+          apply value_agrees; auto; try (now apply Pre2_Pre); now rewrite Ev. }
+    pose proof (ResB_of_Step f e s s1 _ S0 P T He) as [U0 N0 _ P1 T1 _].
+    assert (S1 : Step s1 s2 []) by apply Step_add_leaf.
+    pose proof (ResB_of_Step f e s1 s2 _ S1 P1 T1 He) as [U1 N1 _ P2 T2 _].
+    assert (Hloc : loc = at_file f (i_rng i)) by (unfold loc, at_file; now rewrite (p2_file f e s P)).
+    assert (Hleaf : option_map lf_loc (nthN (s_leaves s2) (lenN (s_leaves s1))) = Some (at_file f (i_rng i))).
+    { unfold s2. rewrite leaves_add_leaf, nthN_app_last. simpl. now rewrite Hloc. }
+    pose proof (Pre2_pushed_foreach f e s2 i (lenN (s_leaves s1)) (at_file f (i_rng i)) P2 Hleaf) as P3.
+    fold e2 in P3. change (KForeach (i_name i) (lenN (s_leaves s1))) with (k s1) in P3.
+    assert (Hb3 := Hb). apply scoped_bad in Hb3.
+    pose proof (stmtsB_sim files n IH b f e2 (pushed (k s1) s2) Hfb P3 (Stat_pushed_foreach _ _ s2 T2)) as R3.
+    rewrite Eb in R3. simpl in R3. destruct R3 as [U3 N3 [vs Sc3] P4 T4 F4]; auto; [discriminate|].
+    rewrite <- Efin. unfold final.
+    eapply (FIN e1 (leave e e1) s (snd (iterM (index_stmt files n) b (pushed (k s1) s2))) (ev0 ++ ev1)); auto.
+    - apply same_globals_leave.
+    - now apply Pre2_g.
+    - change (same_but_scopes final (snd (iterM (index_stmt files n) b (pushed (k s1) s2)))).
+      rewrite Efin. erewrite (scoped_final _ _ _ s2 vs); [apply sbs_set_scopes|exact Sc3].
+    - rewrite U3. simpl. rewrite U1. simpl. rewrite U0, rev_app_distr, app_assoc. reflexivity.
+    - rewrite N3. unfold nf, pushed; simpl. fold (nf s2). rewrite N1, N0. reflexivity.
+  Qed.
+
+  Lemma caseB_defm : forall nm r ps f e s,
+      frag_name nm = true -> forallb frag_classref ps = true ->
+      Pre2 f e s -> Stat s -> e_frames e <> [] ->
+      forallb resolved (fst (spec_stmt f e (SDefm nm r ps))) = true ->
+      s_bad (snd (index_stmt files (S n) (SDefm nm r ps) s)) = false ->
+      ResB f s (snd (index_stmt files (S n) (SDefm nm r ps) s))
+           (fst (spec_stmt f e (SDefm nm r ps))) (snd (spec_stmt f e (SDefm nm r ps))).
+  Proof.
+    intros nm r ps f e s Hfn Hfp P T He HR Hb.
+    pose proof (finish_block_like files (S n) (SDefm nm r ps) f e) as FIN.
+    set (final := snd (index_stmt files (S n) (SDefm nm r ps) s)) in *.
+    change (spec_stmt f e (SDefm nm r ps)) with
+      ((fix go (e : env) (l : list classref) : list ev :=
+          match l with [] => [] | c :: r0 => spec_mcref f e c ++ go e r0 end) (push_vars e []) ps, e) in *.
+    rewrite mcrefs_local in *. simpl in HR |- *.
+    set (mdid := match nm with
+                 | Some v => bind (index_name_value v) (fun p => add_leaf (mkLeaf LDefm (fst p) MUnknown false (snd p)))
+                 | None => seq next_anonymous (bind (here r) (fun loc => add_leaf_nopos (mkLeaf LDefm [] MUnknown false loc)))
+                 end).
+    assert (Sd : Step s (snd (mdid s)) [] /\ fst (mdid s) <> None).
+    { unfold mdid. destruct nm as [v|].
+      - unfold frag_name, is_ident_first in Hfn. rewrite first_ident_eq in Hfn.
+        destruct v as [rv [|[[] sufs] rest]]; simpl in Hfn; try discriminate.
+        split; [|discriminate].
+        exact (Step_add_leaf s (mkLeaf LDefm (i_name i) MUnknown false
+                                       (mkR (current_file s) (r_lo (i_rng i)) (r_hi (i_rng i))))).
+      - unfold seq, bind, here, get, next_anonymous, upd, add_leaf_nopos; simpl. split; [|discriminate].
+        split; simpl; auto. repeat split; auto. eexists; reflexivity. }
+    destruct Sd as [Sd Hsome].
+    assert (Efin : final = match fst (mdid s) with
+                           | Some did => snd (scoped (KDefm did) (index_parents n ps) (snd (mdid s)))
+                           | None => snd (mdid s)
+                           end).
+    { unfold final. simpl. unfold bind at 1. fold mdid. destruct (mdid s) as [[did|] s1]; reflexivity. }
+    destruct (mdid s) as [[did|] s1] eqn:Ed; [|simpl in Hsome; congruence]. simpl in *.
+    rewrite Efin in Hb |- *.
+    pose proof (ResB_of_Step f e s s1 _ Sd P T He) as [U0 N0 _ P1 T1 _].
+    set (k := KDefm did) in *.
+    assert (Hb3 := Hb). apply scoped_bad in Hb3.
+    assert (Tp : Stat (pushed k s1)) by (apply Stat_pushed; [exact T1|reflexivity]).
+    assert (Pp : Pre2 f (push_vars e []) (pushed k s1)) by (apply Pre2_pushed; [exact P1|reflexivity]).
+    assert (Hk : current_multiclass_id (pushed k s1) <> None \/ current_defm_id (pushed k s1) <> None).
+    { right. unfold current_defm_id, pushed; simpl. unfold sc_defm_id; simpl. discriminate. }
+    destruct (parents_mc_sim n ps f (push_vars e []) (pushed k s1) Hfp Pp Tp Hk HR Hb3) as [U2 V2 Sc2 N2].
+    rewrite <- Efin. unfold final.
+    eapply (FIN e e s (snd (index_parents n ps (pushed k s1))) (flat_map (spec_mcref f (push_vars e [])) ps)); auto.
+    - apply same_globals_refl.
+    - eapply (Pre2g_globals f (push_vars e []) e); [repeat split|]. apply Pre2_g. eapply Pre2_VRm; eassumption.
+    - change (same_but_scopes final (snd (index_parents n ps (pushed k s1)))).
+      rewrite Efin. rewrite (scoped_final _ k _ s1 []); [apply sbs_set_scopes|]. rewrite Sc2. now rewrite add_vars_nil.
+    - rewrite U2. simpl. rewrite U0. simpl. reflexivity.
+    - rewrite N2. unfold nf, pushed; simpl. fold (nf s1). exact N0.
+  Qed.
+End CasesB4.
+
+(** ---------------------------------------------------------------------------------------------
+    record bodies (no parent classes): the innermost scope is the record's, its variables / fields / template
+    arguments correspond to the three parts of the innermost frame *)
+Definition AL (s : st) (l : list (name * N)) (l' : list (name * rng)) : Prop :=
+  forall nm, match alookup nm l with
+             | Some id => exists lf, nthN (s_leaves s) id = Some lf /\ lookup nm l' = Some (lf_loc lf)
+             | None => lookup nm l' = None
+             end.
+
+Inductive RB (f : N) (e : env) (s : st) (rid : N) : Prop :=
+| mkRB : forall (vars : list (name * N)) (tail : list scope) (fr : frame) (frs : list frame) (rc : recd),
+    s_scopes s = mkScope (KRecord rid) vars :: tail ->
+    e_frames e = fr :: frs ->
+    nthN (s_recs s) rid = Some rc ->
+    rc_parents rc = [] ->
+    AL s vars (fr_vars fr) ->
+    AL s (rc_fields rc) (fr_fields fr) ->
+    AL s (rc_targs rc) (fr_targs fr) ->
+    (forall nm d, first_some (frame_lookup nm) frs = Some d ->
+                  exists sym, find_local (set_scopes tail s) nm = Some sym /\ define_loc s sym = Some d) ->
+    (forall nm, first_some (frame_lookup nm) frs = None -> find_local (set_scopes tail s) nm = None) ->
+    current_record_id (set_scopes tail s) = None ->
+    RB f e s rid.
+
+Lemma find_field_nopar : forall fuel recs rid rc nm,
+    nthN recs rid = Some rc -> rc_parents rc = [] -> find_field (S fuel) recs rid nm = alookup nm (rc_fields rc).
+Proof. intros fuel recs rid rc nm H Hp. simpl. rewrite H, Hp. destruct (alookup nm (rc_fields rc)); reflexivity. Qed.
+
+Lemma find_local_cons : forall s c t nm, s_scopes s = c :: t ->
+    find_local s nm = match scope_find s c nm with Some x => Some x | None => find_local (set_scopes t s) nm end.
+Proof.
+  intros s c t nm H. unfold find_local. rewrite H. simpl. destruct (scope_find s c nm); [reflexivity|].
+  apply find_map_ext. intros c0. reflexivity.
+Qed.
+
+Lemma RB_Pre2 : forall f e s rid, RB f e s rid -> Pre2g f e s -> Pre2 f e s.
+Proof.
+  intros f e s rid [vars t fr frs rc Hsc Hfe Hrec Hnp Av Af At T1 T2 T3] [F D1 D2 S1 S2 C1 C2 M1 M2].
+  assert (SF : forall nm, scope_find s (mkScope (KRecord rid) vars) nm
+                          = match alookup nm vars with
+                            | Some v => Some (SyLeaf v)
+                            | None => match alookup nm (rc_fields rc) with
+                                      | Some x => Some (SyLeaf x)
+                                      | None => option_map SyLeaf (alookup nm (rc_targs rc))
+                                      end
+                            end).
+  { intros nm. unfold scope_find, sc_find_variable. cbn [sc_kind sc_vars].
+    destruct (alookup nm vars); [reflexivity|].
+    unfold rec_fuel. rewrite (find_field_nopar _ _ _ rc nm Hrec Hnp). rewrite Hrec. reflexivity. }
+  split; auto.
+  - intros nm d H. unfold locals_of in H. rewrite Hfe in H. simpl in H.
+    rewrite (find_local_cons s _ t nm Hsc), SF. unfold frame_lookup in H.
+    specialize (Av nm). specialize (Af nm). specialize (At nm).
+    destruct (alookup nm vars) as [v|].
+    + destruct Av as [lf [A B]]. rewrite B in H. injection H as <-. exists (SyLeaf v). simpl. now rewrite A.
+    + rewrite Av in H. destruct (alookup nm (rc_fields rc)) as [x|].
+      * destruct Af as [lf [A B]]. rewrite B in H. injection H as <-. exists (SyLeaf x). simpl. now rewrite A.
+      * rewrite Af in H. destruct (alookup nm (rc_targs rc)) as [y|]; simpl.
+        -- destruct At as [lf [A B]]. rewrite B in H. injection H as <-. exists (SyLeaf y). simpl. now rewrite A.
+        -- rewrite At in H. apply T1. exact H.
+  - intros nm H. unfold locals_of in H. rewrite Hfe in H. simpl in H.
+    rewrite (find_local_cons s _ t nm Hsc), SF. unfold frame_lookup in H.
+    specialize (Av nm). specialize (Af nm). specialize (At nm).
+    destruct (alookup nm vars) as [v|]; [destruct Av as [lf [A B]]; rewrite B in H; discriminate|].
+    rewrite Av in H. destruct (alookup nm (rc_fields rc)) as [x|]; [destruct Af as [lf [A B]]; rewrite B in H; discriminate|].
+    rewrite Af in H. destruct (alookup nm (rc_targs rc)) as [y|]; [destruct At as [lf [A B]]; rewrite B in H; discriminate|].
+    rewrite At in H. simpl. apply T2. exact H.
+Qed.
+
+Lemma AL_ext : forall s s' l l', AL s l l' -> (exists ext, s_leaves s' = s_leaves s ++ ext) -> AL s' l l'.
+Proof.
+  intros s s' l l' H [ext Hl] nm. specialize (H nm). destruct (alookup nm l) as [id|]; [|exact H].
+  destruct H as [lf [A B]]. exists lf. split; [|exact B]. rewrite Hl. now apply nthN_app_some.
+Qed.
+
+Lemma find_local_tail_eq : forall t s s' nm,
+    s_mcs s' = s_mcs s -> current_record_id (set_scopes t s) = None ->
+    find_local (set_scopes t s') nm = find_local (set_scopes t s) nm.
+Proof.
+  intros t s s' nm Hm Hnr. unfold find_local; simpl.
+  assert (G : forall l, find_map sc_record_id l = None ->
+                        find_map (fun c => scope_find (set_scopes t s') c nm) l
+                        = find_map (fun c => scope_find (set_scopes t s) c nm) l).
+  { induction l as [|c r IHl]; intros Hn; simpl; [reflexivity|]. simpl in Hn.
+    destruct (sc_record_id c) eqn:Ec; [discriminate|].
+    assert (E : scope_find (set_scopes t s') c nm = scope_find (set_scopes t s) c nm).
+    { unfold scope_find. destruct (sc_find_variable c nm); [reflexivity|].
+      unfold sc_record_id in Ec. destruct (sc_kind c); try reflexivity; try discriminate. simpl. now rewrite Hm. }
+    rewrite E. destruct (scope_find (set_scopes t s) c nm); [reflexivity|]. now apply IHl. }
+  apply G. exact Hnr.
+Qed.
+
+(** values keep the record-body relation *)
+Lemma RB_VR : forall f e s s' rid, RB f e s rid -> VR s s' -> s_scopes s' = s_scopes s -> RB f e s' rid.
+Proof.
+  intros f e s s' rid [vars t fr frs rc Hsc Hfe Hrec Hnp Av Af At T1 T2 T3] V Hs.
+  pose proof V as (Hr & Hm & Hc & Hd & Hmc & Hds & Ht & Hl).
+  apply (mkRB f e s' rid vars t fr frs rc); auto.
+  - now rewrite Hs.
+  - now rewrite Hr.
+  - now apply (AL_ext s s').
+  - now apply (AL_ext s s').
+  - now apply (AL_ext s s').
+  - intros nm d H. destruct (T1 nm d H) as [sym [A B]]. exists sym.
+    rewrite (find_local_tail_eq t s s' nm Hm T3). split; [exact A|now apply (define_loc_ext s s')].
+  - intros nm H. rewrite (find_local_tail_eq t s s' nm Hm T3). now apply T2.
+Qed.
+Lemma Pre2g_VR : forall f e s s', Pre2g f e s -> VR s s' -> Pre2g f e s'.
+Proof.
+  intros f e s s' [F D1 D2 S1 S2 C1 C2 M1 M2] V.
+  pose proof V as (Hr & Hm & Hc & Hd & Hmc & Hds & Ht & Hl). split.
+  - unfold current_file in *. now rewrite Ht.
+  - intros nm d H. destruct (D1 nm d H) as [id [A B]]. exists id. unfold find_def in *. rewrite Hd.
+    split; [exact A|now apply (define_loc_ext s s')].
+  - intros nm H. unfold find_def in *. rewrite Hd. now apply D2.
+  - intros nm d H. destruct (S1 nm d H) as [id [A B]]. exists id. unfold find_defset in *. rewrite Hds.
+    split; [exact A|now apply (define_loc_ext s s')].
+  - intros nm H. unfold find_defset in *. rewrite Hds. now apply S2.
+  - intros nm d H. specialize (C1 nm d H). unfold class_view, find_class in *. now rewrite Hc, Hr.
+  - intros nm H. unfold find_class in *. rewrite Hc. now apply C2.
+  - intros nm d H. specialize (M1 nm d H). unfold mc_view, find_multiclass in *. now rewrite Hmc, Hm.
+  - intros nm H. unfold find_multiclass in *. rewrite Hmc. now apply M2.
+Qed.
+
+(** ---- pieces used by the record-body steps *)
+Lemma name_eqb_eq : forall a b, name_eqb a b = true <-> a = b.
+Proof.
+  induction a as [|x a IH]; intros [|y b]; simpl; split; intros H; try discriminate; try reflexivity.
+  - apply andb_true_iff in H. destruct H as [H1 H2]. apply N.eqb_eq in H1. apply IH in H2. now subst.
+  - injection H as -> ->. rewrite N.eqb_refl. simpl. now apply IH.
+Qed.
+Lemma name_eqb_spec : forall a b, reflect (a = b) (name_eqb a b).
+Proof.
+  intros a b. destruct (name_eqb a b) eqn:E; constructor.
+  - now apply name_eqb_eq.
+  - intros H. apply name_eqb_eq in H. congruence.
+Qed.
+
+Lemma alookup_imap_insert : forall V (k : name) (v : V) l nm,
+    alookup nm (imap_insert k v l) = if name_eqb nm k then Some v else alookup nm l.
+Proof.
+  intros V k v l nm. induction l as [|[k' v'] r IH]; simpl.
+  - destruct (name_eqb nm k); reflexivity.
+  - destruct (name_eqb_spec k k') as [->|Hne]; simpl.
+    + destruct (name_eqb nm k'); reflexivity.
+    + rewrite IH. destruct (name_eqb_spec nm k') as [->|Hn2]; [|reflexivity].
+      destruct (name_eqb_spec k' k) as [Heq|_]; [congruence|reflexivity].
+Qed.
+
+Lemma ty_sim_some : forall t f e s,
+    Pre f e s -> forallb resolved (spec_ty f e t) = true -> fst (index_ty t s) <> None.
+Proof.
+  induction t; intros f e s P HR; simpl; try discriminate.
+  - unfold bind. specialize (IHt f e s P HR). destruct (index_ty t s) as [[x|] s1]; simpl in *; [discriminate|congruence].
+  - simpl in HR. rewrite andb_true_r in HR. unfold resolved in HR; simpl in HR.
+    destruct (lookup_class e (i_name i)) as [d|] eqn:El; [|discriminate].
+    pose proof (pre_cls_some f e s P _ _ El) as Hc. unfold class_view in Hc.
+    unfold bind, here, state, get; simpl.
+    destruct (find_class s (i_name i)) as [c|] eqn:Ef; [|discriminate]. simpl. discriminate.
+Qed.
+
+(** a state update that appends leaves and changes the open record (its maps only) *)
+Definition rec_update (s s' : st) (rid : N) (g : recd -> recd) : Prop :=
+  s_scopes s' = s_scopes s /\ s_mcs s' = s_mcs s /\ s_trace s' = s_trace s /\
+  s_nclass s' = s_nclass s /\ s_ndef s' = s_ndef s /\ s_nmc s' = s_nmc s /\ s_ndset s' = s_ndset s /\
+  (exists ext, s_leaves s' = s_leaves s ++ ext) /\
+  s_recs s' = set_nth (N.to_nat rid) g (s_recs s).
+
+Lemma define_loc_rec_update : forall s s' rid g sym d,
+    rec_update s s' rid g -> (forall r, rc_loc (g r) = rc_loc r) ->
+    define_loc s sym = Some d -> define_loc s' sym = Some d.
+Proof.
+  intros s s' rid g sym d (Hs & Hm & _ & _ & _ & _ & _ & [ext Hl] & Hr) Hg H. destruct sym; simpl in *.
+  - rewrite Hr, nthN_set_nth. destruct (N.eqb rid i); [|exact H].
+    destruct (nthN (s_recs s) i); simpl in *; [|discriminate]. now rewrite Hg.
+  - now rewrite Hm.
+  - rewrite Hl. destruct (nthN (s_leaves s) i) eqn:E; [|discriminate]. now rewrite (nthN_app_some _ _ ext _ _ E).
+Qed.
+
+Lemma Pre2g_rec_update : forall f e s s' rid g,
+    Pre2g f e s -> rec_update s s' rid g -> (forall r, rc_loc (g r) = rc_loc r) -> Pre2g f e s'.
+Proof.
+  intros f e s s' rid g [F D1 D2 S1 S2 C1 C2 M1 M2] U Hg.
+  pose proof U as (Hs & Hm & Ht & Hc & Hd & Hmc & Hds & Hl & Hr).
+  split.
+  - unfold current_file in *. now rewrite Ht.
+  - intros nm d H. destruct (D1 nm d H) as [id [A B]]. exists id. unfold find_def in *. rewrite Hd.
+    split; [exact A|]. eapply define_loc_rec_update; eassumption.
+  - intros nm H. unfold find_def in *. rewrite Hd. now apply D2.
+  - intros nm d H. destruct (S1 nm d H) as [id [A B]]. exists id. unfold find_defset in *. rewrite Hds.
+    split; [exact A|]. eapply define_loc_rec_update; eassumption.
+  - intros nm H. unfold find_defset in *. rewrite Hds. now apply S2.
+  - intros nm d H. specialize (C1 nm d H). unfold class_view, find_class in *. rewrite Hc.
+    destruct (alookup nm (s_nclass s)) as [id|]; [|discriminate].
+    change (define_loc s' (SyRecord id) = Some d). eapply define_loc_rec_update; eassumption.
+  - intros nm H. unfold find_class in *. rewrite Hc. now apply C2.
+  - intros nm d H. specialize (M1 nm d H). unfold mc_view, find_multiclass in *. now rewrite Hmc, Hm.
+  - intros nm H. unfold find_multiclass in *. rewrite Hmc. now apply M2.
+Qed.
+
+Lemma RB_rec_update : forall f e e' s s' rid g,
+    RB f e s rid -> rec_update s s' rid g ->
+    (forall r, rc_loc (g r) = rc_loc r) -> (forall r, rc_parents (g r) = rc_parents r) ->
+    (forall vars t fr frs rc,
+        s_scopes s = mkScope (KRecord rid) vars :: t -> e_frames e = fr :: frs -> nthN (s_recs s) rid = Some rc ->
+        AL s (rc_fields rc) (fr_fields fr) -> AL s (rc_targs rc) (fr_targs fr) ->
+        exists fr', e_frames e' = fr' :: frs /\ fr_vars fr' = fr_vars fr /\
+                    AL s' (rc_fields (g rc)) (fr_fields fr') /\ AL s' (rc_targs (g rc)) (fr_targs fr')) ->
+    RB f e' s' rid.
+Proof.
+  intros f e e' s s' rid g [vars t fr frs rc Hsc Hfe Hrec Hnp Av Af At T1 T2 T3] U Hg Hp Hnew.
+  pose proof U as (Hs & Hm & Ht & Hc & Hd & Hmc & Hds & Hl & Hr).
+  destruct (Hnew vars t fr frs rc Hsc Hfe Hrec Af At) as (fr' & Hfe' & Hv' & Af' & At').
+  apply (mkRB f e' s' rid vars t fr' frs (g rc)); auto.
+  - now rewrite Hs.
+  - rewrite Hr, nthN_set_nth, N.eqb_refl, Hrec. reflexivity.
+  - now rewrite Hp.
+  - rewrite Hv'. now apply (AL_ext s s').
+  - intros nm d H. destruct (T1 nm d H) as [sym [A B]]. exists sym.
+    rewrite (find_local_tail_eq t s s' nm Hm T3). split; [exact A|]. eapply define_loc_rec_update; eassumption.
+  - intros nm H. rewrite (find_local_tail_eq t s s' nm Hm T3). now apply T2.
+Qed.
+
+Record ResR (f : N) (s s' : st) (E : list ev) (e' : env) (rid : N) : Prop := mkResR {
+  rr_uses : s_uses s' = rev E ++ s_uses s;
+  rr_nf : nf s' = nf s;
+  rr_rb : RB f e' s' rid;
+  rr_g : Pre2g f e' s' }.
+Lemma ResR_trans : forall f a b c E1 E2 e1 e2 rid,
+    ResR f a b E1 e1 rid -> ResR f b c E2 e2 rid -> ResR f a c (E1 ++ E2) e2 rid.
+Proof.
+  intros f a b c E1 E2 e1 e2 rid [U1 N1 _ _] [U2 N2 R2 G2]. split; auto.
+  - rewrite U2, U1, rev_app_distr, app_assoc. reflexivity.
+  - congruence.
+Qed.
+Lemma ResR_of_Step : forall f e s s' E rid,
+    Step s s' E -> RB f e s rid -> Pre2g f e s -> ResR f s s' E e rid.
+Proof.
+  intros f e s s' E rid [U V Sc N] R G. split; auto.
+  - eapply RB_VR; eassumption.
+  - eapply Pre2g_VR; eassumption.
+Qed.
+
+Lemma RB_current : forall f e s rid, RB f e s rid -> current_record_id s = Some rid.
+Proof. intros f e s rid [vars t fr frs rc Hsc _ _ _ _ _ _ _ _ _]. unfold current_record_id. rewrite Hsc. reflexivity. Qed.
+Lemma RB_valid : forall f e s rid, RB f e s rid -> exists rc, nthN (s_recs s) rid = Some rc.
+Proof. intros f e s rid [vars t fr frs rc _ _ Hrec _ _ _ _ _ _ _]. eauto. Qed.
+
+(** the state after `add_leaf l; record_mut rid g` for an existing record *)
+Lemma leaf_then_mut : forall s l rid g rc,
+    nthN (s_recs s) rid = Some rc ->
+    let s3 := snd (record_mut rid g (snd (add_leaf l s))) in
+    rec_update s s3 rid g /\ s_uses s3 = s_uses s /\ nf s3 = nf s /\ s_leaves s3 = s_leaves s ++ [l] /\ s_bad s3 = s_bad s.
+Proof.
+  intros s l rid g rc H s3. unfold s3, record_mut, add_leaf; simpl. unfold add_pos.
+  destruct (rng_empty (lf_loc l)); simpl; rewrite H; simpl; repeat split; auto; eexists; reflexivity.
+Qed.
+
+Lemma add_field_frames : forall e fr frs n r, e_frames e = fr :: frs ->
+    e_frames (add_field e n r) = mkFrame (fr_vars fr) ((n, r) :: fr_fields fr) (fr_targs fr) :: frs.
+Proof. intros e fr frs n r H. unfold add_field. rewrite H. reflexivity. Qed.
+Lemma add_targ_frames : forall e fr frs n r, e_frames e = fr :: frs ->
+    e_frames (add_targ e n r) = mkFrame (fr_vars fr) (fr_fields fr) ((n, r) :: fr_targs fr) :: frs.
+Proof. intros e fr frs n r H. unfold add_targ. rewrite H. reflexivity. Qed.
+Lemma same_globals_add_field : forall e n r, same_globals e (add_field e n r).
+Proof. intros. unfold add_field. destruct (e_frames e); repeat split. Qed.
+Lemma same_globals_add_targ : forall e n r, same_globals e (add_targ e n r).
+Proof. intros. unfold add_targ. destruct (e_frames e); repeat split. Qed.
+
+Lemma AL_insert : forall s s' l l' nm0 id lf,
+    AL s l l' -> (exists ext, s_leaves s' = s_leaves s ++ ext) -> nthN (s_leaves s') id = Some lf ->
+    AL s' (imap_insert nm0 id l) ((nm0, lf_loc lf) :: l').
+Proof.
+  intros s s' l l' nm0 id lf H Hext Hid nm. rewrite alookup_imap_insert. simpl.
+  destruct (name_eqb nm nm0).
+  - exists lf. auto.
+  - apply (AL_ext s s' l l' H Hext nm).
+Qed.
+
+(** declaring a field (FieldDef before its initialiser, or the re-declaration by a FieldLet) *)
+Lemma RB_add_field : forall f e s rid l,
+    RB f e s rid -> Pre2g f e s ->
+    let s3 := snd (record_mut rid (rec_add_field (lf_name l) (lenN (s_leaves s))) (snd (add_leaf l s))) in
+    ResR f s s3 [] (add_field e (lf_name l) (lf_loc l)) rid.
+Proof.
+  intros f e s rid l R G s3.
+  destruct (RB_valid _ _ _ _ R) as [rc Hrc].
+  destruct (leaf_then_mut s l rid (rec_add_field (lf_name l) (lenN (s_leaves s))) rc Hrc) as (U & Hu & Hn & Hl & _).
+  fold s3 in U, Hu, Hn, Hl.
+  assert (Hext : exists ext, s_leaves s3 = s_leaves s ++ ext) by (eexists; exact Hl).
+  assert (Hid : nthN (s_leaves s3) (lenN (s_leaves s)) = Some l) by (rewrite Hl; apply nthN_app_last).
+  split; auto.
+  - eapply (RB_rec_update f e _ s s3 rid _ R U); try reflexivity.
+    intros vars t fr frs rc0 Hsc Hfe Hrec Af At.
+    exists (mkFrame (fr_vars fr) ((lf_name l, lf_loc l) :: fr_fields fr) (fr_targs fr)).
+    split; [now apply add_field_frames|]. split; [reflexivity|]. split.
+    + simpl. now apply (AL_insert s s3).
+    + simpl. now apply (AL_ext s s3).
+  - eapply (Pre2g_globals f e); [apply same_globals_add_field|].
+    eapply Pre2g_rec_update; [exact G|exact U|reflexivity].
+Qed.
+Lemma RB_add_targ : forall f e s rid l,
+    RB f e s rid -> Pre2g f e s ->
+    let s3 := snd (record_mut rid (rec_add_targ (lf_name l) (lenN (s_leaves s))) (snd (add_leaf l s))) in
+    ResR f s s3 [] (add_targ e (lf_name l) (lf_loc l)) rid.
+Proof.
+  intros f e s rid l R G s3.
+  destruct (RB_valid _ _ _ _ R) as [rc Hrc].
+  destruct (leaf_then_mut s l rid (rec_add_targ (lf_name l) (lenN (s_leaves s))) rc Hrc) as (U & Hu & Hn & Hl & _).
+  fold s3 in U, Hu, Hn, Hl.
+  assert (Hext : exists ext, s_leaves s3 = s_leaves s ++ ext) by (eexists; exact Hl).
+  assert (Hid : nthN (s_leaves s3) (lenN (s_leaves s)) = Some l) by (rewrite Hl; apply nthN_app_last).
+  split; auto.
+  - eapply (RB_rec_update f e _ s s3 rid _ R U); try reflexivity.
+    intros vars t fr frs rc0 Hsc Hfe Hrec Af At.
+    exists (mkFrame (fr_vars fr) (fr_fields fr) ((lf_name l, lf_loc l) :: fr_targs fr)).
+    split; [now apply add_targ_frames|]. split; [reflexivity|]. split.
+    + simpl. now apply (AL_ext s s3).
+    + simpl. now apply (AL_insert s s3).
+  - eapply (Pre2g_globals f e); [apply same_globals_add_targ|].
+    eapply Pre2g_rec_update; [exact G|exact U|reflexivity].
+Qed.
+
+Lemma AL_cons : forall s s' l l' nm0 id lf,
+    AL s l l' -> (exists ext, s_leaves s' = s_leaves s ++ ext) -> nthN (s_leaves s') id = Some lf ->
+    AL s' ((nm0, id) :: l) ((nm0, lf_loc lf) :: l').
+Proof.
+  intros s s' l l' nm0 id lf H Hext Hid nm. simpl. destruct (name_eqb nm nm0).
+  - exists lf. auto.
+  - apply (AL_ext s s' l l' H Hext nm).
+Qed.
+
+Lemma RB_with_var : forall f e s rid l,
+    RB f e s rid -> Pre2g f e s ->
+    ResR f s (with_var s l) [] (add_var e (lf_name l) (lf_loc l)) rid.
+Proof.
+  intros f e s rid l R G.
+  destruct R as [vars t fr frs rc Hsc Hfe Hrec Hnp Av Af At T1 T2 T3].
+  destruct (with_var_facts s l _ _ Hsc) as (Hsc' & Hl & Hu & Hn & V).
+  pose proof V as (Hr & Hm & _).
+  assert (Hext : exists ext, s_leaves (with_var s l) = s_leaves s ++ ext) by (eexists; exact Hl).
+  assert (Hid : nthN (s_leaves (with_var s l)) (lenN (s_leaves s)) = Some l) by (rewrite Hl; apply nthN_app_last).
+  split; auto.
+  - apply (mkRB f _ (with_var s l) rid ((lf_name l, lenN (s_leaves s)) :: vars) t
+                 (mkFrame ((lf_name l, lf_loc l) :: fr_vars fr) (fr_fields fr) (fr_targs fr)) frs rc); auto.
+    + unfold add_var. rewrite Hfe. reflexivity.
+    + now rewrite Hr.
+    + simpl. now apply (AL_cons s (with_var s l)).
+    + simpl. now apply (AL_ext s (with_var s l)).
+    + simpl. now apply (AL_ext s (with_var s l)).
+    + intros nm d H. destruct (T1 nm d H) as [sym [A B]]. exists sym.
+      rewrite (find_local_tail_eq t s (with_var s l) nm Hm T3). split; [exact A|now apply (define_loc_ext s _ _ _ V)].
+    + intros nm H. rewrite (find_local_tail_eq t s (with_var s l) nm Hm T3). now apply T2.
+  - eapply (Pre2g_globals f e); [apply same_globals_add_var|]. eapply Pre2g_VR; eassumption.
+Qed.
+
+Lemma RB_Pre : forall f e s rid, RB f e s rid -> Pre2g f e s -> Pre f e s.
+Proof. intros. apply Pre2_Pre. eapply RB_Pre2; eassumption. Qed.
+
+Lemma value_ResR : forall n v f e s rid,
+    frag_value v = true -> RB f e s rid -> Pre2g f e s -> forallb resolved (spec_value f e v) = true ->
+    s_bad (snd (index_value n v s)) = false ->
+    ResR f s (snd (index_value n v s)) (spec_value f e v) e rid.
+Proof.
+  intros n v f e s rid Hf R G HR Hb. apply ResR_of_Step; auto. apply value_agrees; auto. eapply RB_Pre; eassumption.
+Qed.
+
+Lemma err_ResR : forall f e s rid r k, nf_kind k = false -> RB f e s rid -> Pre2g f e s ->
+    ResR f s (snd (err r k s)) [] e rid.
+Proof. intros. apply ResR_of_Step; auto. now apply Step_err. Qed.
+
+Lemma BM_record_mut : forall id g, resp BadMono (record_mut id g).
+Proof. intros. bm_prim. Qed.
+Lemma BM_add_leaf : forall l, resp BadMono (add_leaf l).
+Proof. intros. bm_prim. Qed.
+
+(** the state reached by `FieldDef::index`, as a function of the states of its parts *)
+Definition after_decl (s1 : st) (rid : N) (lf : leaf) : st :=
+  snd (record_mut rid (rec_add_field (lf_name lf) (lenN (s_leaves s1))) (snd (add_leaf lf s1))).
+
+Definition field_state (n : nat) (t : ty) (i : ident) (v : option value) (rid : N) (s : st) : st :=
+  let loc := mkR (current_file s) (r_lo (i_rng i)) (r_hi (i_rng i)) in
+  match index_ty t s with
+  | (None, s1) => s1
+  | (Some typ, s1) =>
+    let s3 := after_decl s1 rid (mkLeaf LField (i_name i) typ false loc) in
+    match v with
+    | None => s3
+    | Some v' =>
+      match index_value n v' s3 with
+      | (None, s4) => s4
+      | (Some vt, s4) => if can_cast s4 vt typ then s4 else snd (err (value_rng v') DFieldIncompat s4)
+      end
+    end
+  end.
+Lemma field_state_eq : forall n t i v rid s, current_record_id s = Some rid ->
+    snd (index_item n (IField t i v) s) = field_state n t i v rid s.
+Proof.
+  intros n t i v rid s Hc. unfold field_state, after_decl. simpl.
+  unfold bind at 1. unfold state, get. simpl. rewrite Hc.
+  unfold bind at 1. unfold here, get. simpl. unfold bind at 1.
+  destruct (index_ty t s) as [[typ|] s1]; simpl; [|reflexivity].
+  unfold bind at 1. simpl. unfold seq at 1. unfold bind at 1. unfold lift at 1.
+  destruct v as [v'|]; simpl; [|reflexivity].
+  unfold bind at 1. destruct (index_value n v' _) as [[vt|] s4]; simpl; [|reflexivity].
+  unfold bind, state, get. simpl. destruct (can_cast s4 vt typ); reflexivity.
+Qed.
+
+Arguments find_field : simpl never.
+Arguments rec_fuel : simpl never.
+
+(** ... and by `FieldLet::index` *)
+Definition let_state (n : nat) (i : ident) (v : value) (rid : N) (s : st) : st :=
+  let loc := mkR (current_file s) (r_lo (i_rng i)) (r_hi (i_rng i)) in
+  match find_field (rec_fuel s) (s_recs s) rid (i_name i) with
+  | None => s
+  | Some fid =>
+    match nthN (s_leaves s) fid with
+    | None => s
+    | Some fl =>
+      let s3 := after_decl s rid (mkLeaf LField (i_name i) (lf_ty fl) false loc) in
+      let s4 := snd (add_reference (SyLeaf fid) loc s3) in
+      match index_value n v s4 with
+      | (None, s5) => s5
+      | (Some vt, s5) => if can_cast s5 vt (lf_ty fl) then s5 else snd (err (value_rng v) DFieldIncompat s5)
+      end
+    end
+  end.
+Lemma let_state_eq : forall n i v rid s, current_record_id s = Some rid ->
+    snd (index_item n (ILet i v) s) = let_state n i v rid s.
+Proof.
+  intros n i v rid s Hc. unfold let_state, after_decl. simpl.
+  unfold bind at 1. unfold here, get. simpl. unfold bind at 1. unfold state, get. simpl. rewrite Hc.
+  unfold bind at 1. unfold lift at 1.
+  destruct (find_field (rec_fuel s) (s_recs s) rid (i_name i)) as [fid|]; simpl; [|reflexivity].
+  unfold bind at 1. unfold leaf_of, bind, state, get, lift. simpl.
+  destruct (nthN (s_leaves s) fid) as [fl|]; simpl; [|reflexivity].
+  unfold seq. simpl.
+  destruct (index_value n v _) as [[vt|] s5]; simpl; [|reflexivity].
+  destruct (can_cast s5 vt (lf_ty fl)); reflexivity.
+Qed.
+
+Lemma item_sim : forall n it f e s rid,
+    frag_item it = true -> RB f e s rid -> Pre2g f e s ->
+    forallb resolved (fst (spec_item f e it)) = true ->
+    s_bad (snd (index_item n it s)) = false ->
+    ResR f s (snd (index_item n it s)) (fst (spec_item f e it)) (snd (spec_item f e it)) rid.
+Proof.
+  intros n it f e s rid Hf R G HR Hb. destruct it as [t i v|i v|i v|c m|v].
+  - (* field *)
+    rewrite (field_state_eq n t i v rid s (RB_current _ _ _ _ R)) in *.
+    change (spec_item f e (IField t i v)) with
+      (spec_ty f e t ++ match v with Some v' => spec_value f (add_field e (i_name i) (at_file f (i_rng i))) v' | None => [] end,
+       add_field e (i_name i) (at_file f (i_rng i))) in *.
+    simpl in HR |- *. set (e1 := add_field e (i_name i) (at_file f (i_rng i))) in *.
+    rewrite forallb_app in HR. apply andb_true_iff in HR. destruct HR as [HRt HRv].
+    unfold field_state in *.
+    set (loc := mkR (current_file s) (r_lo (i_rng i)) (r_hi (i_rng i))) in *.
+    assert (Hloc : loc = at_file f (i_rng i)) by (unfold loc, at_file; now rewrite (g_file f e s G)).
+    pose proof (RB_Pre _ _ _ _ R G) as P.
+    pose proof (ty_sim t f e s P HRt) as St. pose proof (ty_sim_some t f e s P HRt) as Hts.
+    destruct (index_ty t s) as [[typ|] s1] eqn:Et; [|simpl in Hts; congruence]. simpl in St.
+    pose proof (ResR_of_Step f e s s1 _ rid St R G) as R1. pose proof R1 as [_ _ Rb1 G1].
+    set (lf := mkLeaf LField (i_name i) typ false loc) in *.
+    pose proof (RB_add_field f e s1 rid lf Rb1 G1) as R2.
+    assert (Ee : add_field e (lf_name lf) (lf_loc lf) = e1) by (unfold e1, lf; simpl; now rewrite Hloc).
+    rewrite Ee in R2. change (ResR f s1 (after_decl s1 rid lf) [] e1 rid) in R2.
+    set (s3 := after_decl s1 rid lf) in *. pose proof R2 as [_ _ Rb3 G3].
+    destruct v as [v|]; simpl in Hf, HRv |- *.
+    + destruct (index_value n v s3) as [[vt|] s4] eqn:Ev.
+      * assert (Hb4 : s_bad s4 = false) by (destruct (can_cast s4 vt typ); simpl in Hb; exact Hb).
+        assert (R4 : ResR f s3 s4 (spec_value f e1 v) e1 rid).
+        { replace s4 with (snd (index_value n v s3)) by now rewrite Ev.
+          apply value_ResR; [exact Hf|exact Rb3|exact G3|exact HRv|now rewrite Ev]. }
+        destruct (can_cast s4 vt typ).
+        -- eapply ResR_trans; [exact R1|]. change (spec_value f e1 v) with ([] ++ spec_value f e1 v).
+           eapply ResR_trans; [exact R2|exact R4].
+        -- pose proof R4 as [_ _ Rb4 G4].
+           pose proof (err_ResR f e1 s4 rid (value_rng v) DFieldIncompat eq_refl Rb4 G4) as R5.
+           eapply ResR_trans; [exact R1|]. change (spec_value f e1 v) with ([] ++ spec_value f e1 v).
+           eapply ResR_trans; [exact R2|]. rewrite <- (app_nil_r (spec_value f e1 v)).
+           eapply ResR_trans; [exact R4|exact R5].
+      * assert (R4 : ResR f s3 s4 (spec_value f e1 v) e1 rid).
+        { replace s4 with (snd (index_value n v s3)) by now rewrite Ev.
+          apply value_ResR; [exact Hf|exact Rb3|exact G3|exact HRv|now rewrite Ev]. }
+        eapply ResR_trans; [exact R1|]. change (spec_value f e1 v) with ([] ++ spec_value f e1 v).
+        eapply ResR_trans; [exact R2|exact R4].
+    + rewrite app_nil_r. rewrite <- (app_nil_r (spec_ty f e t)). eapply ResR_trans; [exact R1|exact R2].
+  - (* let *)
+    rewrite (let_state_eq n i v rid s (RB_current _ _ _ _ R)) in *.
+    change (spec_item f e (ILet i v)) with
+      ((at_file f (i_rng i), lookup (i_name i) (top_fields e))
+         :: spec_value f (add_field e (i_name i) (at_file f (i_rng i))) v,
+       add_field e (i_name i) (at_file f (i_rng i))) in *.
+    simpl in HR, Hf |- *. set (e1 := add_field e (i_name i) (at_file f (i_rng i))) in *.
+    apply andb_true_iff in HR. destruct HR as [HR1 HRv]. unfold resolved in HR1; simpl in HR1.
+    unfold let_state in *.
+    set (loc := mkR (current_file s) (r_lo (i_rng i)) (r_hi (i_rng i))) in *.
+    assert (Hloc : loc = at_file f (i_rng i)) by (unfold loc, at_file; now rewrite (g_file f e s G)).
+    (* the field exists: the specification resolved it among the fields of the innermost frame *)
+    destruct R as [vars t fr frs rc Hsc Hfe Hrec Hnp Av Af At T1 T2 T3] eqn:ER.
+    assert (Htop : top_fields e = fr_fields fr) by (unfold top_fields; now rewrite Hfe).
+    rewrite Htop in *.
+    destruct (lookup (i_name i) (fr_fields fr)) as [d|] eqn:El; [|discriminate].
+    assert (Hff : find_field (rec_fuel s) (s_recs s) rid (i_name i) = alookup (i_name i) (rc_fields rc)).
+    { unfold rec_fuel. apply (find_field_nopar _ _ _ rc); assumption. }
+    rewrite Hff in *. pose proof (Af (i_name i)) as Afi.
+    destruct (alookup (i_name i) (rc_fields rc)) as [fid|]; [|congruence].
+    destruct Afi as [fl [Hfl Hd]]. rewrite Hfl in *.
+    assert (Hdd : d = lf_loc fl) by congruence. subst d.
+    set (lf := mkLeaf LField (i_name i) (lf_ty fl) false loc) in *.
+    pose proof (RB_add_field f e s rid lf (mkRB f e s rid vars t fr frs rc Hsc Hfe Hrec Hnp Av Af At T1 T2 T3) G) as R2.
+    assert (Ee : add_field e (lf_name lf) (lf_loc lf) = e1) by (unfold e1, lf; simpl; now rewrite Hloc).
+    rewrite Ee in R2. change (ResR f s (after_decl s rid lf) [] e1 rid) in R2.
+    set (s3 := after_decl s rid lf) in *. pose proof R2 as [_ _ Rb3 G3].
+    pose proof (Step_add_reference s3 (SyLeaf fid) loc) as Sr.
+    set (s4 := snd (add_reference (SyLeaf fid) loc s3)) in *.
+    assert (Hdl : define_loc s3 (SyLeaf fid) = Some (lf_loc fl)).
+    { destruct (leaf_then_mut s lf rid (rec_add_field (lf_name lf) (lenN (s_leaves s))) rc Hrec) as (_ & _ & _ & Hl3 & _).
+      simpl. fold (after_decl s rid lf) in Hl3. fold s3 in Hl3. rewrite Hl3, (nthN_app_some _ _ _ _ _ Hfl). reflexivity. }
+    rewrite Hdl, Hloc in Sr.
+    pose proof (ResR_of_Step f e1 s3 s4 _ rid Sr Rb3 G3) as R3. pose proof R3 as [_ _ Rb4 G4].
+    destruct (index_value n v s4) as [[vt|] s5] eqn:Ev.
+    + assert (Hb5 : s_bad s5 = false) by (destruct (can_cast s5 vt (lf_ty fl)); simpl in Hb; exact Hb).
+      assert (R5 : ResR f s4 s5 (spec_value f e1 v) e1 rid).
+      { replace s5 with (snd (index_value n v s4)) by now rewrite Ev.
+        apply value_ResR; [exact Hf|exact Rb4|exact G4|exact HRv|now rewrite Ev]. }
+      destruct (can_cast s5 vt (lf_ty fl)).
+      * change ((at_file f (i_rng i), Some (lf_loc fl)) :: spec_value f e1 v)
+          with ([] ++ ([(at_file f (i_rng i), Some (lf_loc fl))] ++ spec_value f e1 v)).
+        eapply ResR_trans; [exact R2|]. eapply ResR_trans; [exact R3|exact R5].
+      * pose proof R5 as [_ _ Rb5 G5].
+        pose proof (err_ResR f e1 s5 rid (value_rng v) DFieldIncompat eq_refl Rb5 G5) as R6.
+        change ((at_file f (i_rng i), Some (lf_loc fl)) :: spec_value f e1 v)
+          with ([] ++ ([(at_file f (i_rng i), Some (lf_loc fl))] ++ spec_value f e1 v)).
+        eapply ResR_trans; [exact R2|]. eapply ResR_trans; [exact R3|].
+        rewrite <- (app_nil_r (spec_value f e1 v)). eapply ResR_trans; [exact R5|exact R6].
+    + assert (R5 : ResR f s4 s5 (spec_value f e1 v) e1 rid).
+      { replace s5 with (snd (index_value n v s4)) by now rewrite Ev.
+        apply value_ResR; [exact Hf|exact Rb4|exact G4|exact HRv|now rewrite Ev]. }
+      change ((at_file f (i_rng i), Some (lf_loc fl)) :: spec_value f e1 v)
+        with ([] ++ ([(at_file f (i_rng i), Some (lf_loc fl))] ++ spec_value f e1 v)).
+      eapply ResR_trans; [exact R2|]. eapply ResR_trans; [exact R3|exact R5].
+  - (* defvar *)
+    simpl in Hf, HR, Hb |- *. unfold index_defvar, bind, here, get, try_ in *. simpl in *.
+    destruct (index_value n v s) as [o s1] eqn:E1. simpl in *.
+    set (l := mkLeaf LVar (i_name i) match o with Some t => t | None => MUnknown end false
+                     {| r_file := current_file s; r_lo := r_lo (i_rng i); r_hi := r_hi (i_rng i) |}) in *.
+    assert (Hb1 : s_bad s1 = false) by (eapply (bad_false_before _ (scopes_add_variable l)); [bm_prim|exact Hb]).
+    assert (R1 : ResR f s s1 (spec_value f e v) e rid).
+    { replace s1 with (snd (index_value n v s)) by now rewrite E1. apply value_ResR; auto. now rewrite E1. }
+    pose proof R1 as [_ _ Rb1 G1]. fold (with_var s1 l).
+    pose proof (RB_with_var f e s1 rid l Rb1 G1) as R2. simpl in R2.
+    assert (Hloc : {| r_file := current_file s; r_lo := r_lo (i_rng i); r_hi := r_hi (i_rng i) |} = at_file f (i_rng i))
+      by (unfold at_file; now rewrite (g_file f e s G)).
+    rewrite Hloc in R2. rewrite <- (app_nil_r (spec_value f e v)). eapply ResR_trans; eassumption.
+  - (* assert *)
+    simpl in Hf, HR, Hb |- *. apply andb_true_iff in Hf. destruct Hf as [Hfc Hfm].
+    rewrite forallb_app in HR. apply andb_true_iff in HR. destruct HR as [HR1 HR2].
+    unfold seq in *. simpl in *.
+    assert (Hb1 : s_bad (snd (index_value n m s)) = false)
+      by (eapply (bad_false_before _ (index_value n c)); [apply BM_index_value|exact Hb]).
+    pose proof (value_ResR n m f e s rid Hfm R G HR1 Hb1) as R1. pose proof R1 as [_ _ Rb1 G1].
+    eapply ResR_trans; [exact R1|]. apply value_ResR; auto.
+  - (* dump *)
+    simpl in Hf, HR, Hb |- *. unfold seq in *. simpl in *. apply value_ResR; auto.
+Qed.
